@@ -11,8 +11,18 @@ model lean/PyYetiVerif/Model/RigidBody.lean + Model/RigidBodyGuyan.lean, run at 
     _cbcoordchk), or a spring to ground on all six / on ONE degree of freedom) - every returned array and every numeric
     table of the printed report (coordinates, movement checks, three 6x6 masses, cg, radii of gyration, inertia, K*RB
     tables and their sums, effective-mass table with totals, matrix value checks, trimmed DOF lists),
-  * cb._solve_eig directly (null columns, massless DOF, back expansion), cb.rbdispchk, cb.mk_net_drms (net force recovery
-    matrices in both unit systems), cb.rbmultchk, cb.cbtf at exactly 0 Hz.
+  * cb._solve_eig directly (null columns, massless DOF, back expansion), cb.rbdispchk, cb.rbmultchk, cb.cbtf at exactly 0 Hz,
+  * second extension: cb.mk_net_drms AS A WHOLE (Model/RigidBodyNet.lean: every returned matrix incl. ifatm through the
+    model's own RBE3 least-squares kernel, cgatm, the 14 cg load-factor rows, weight / height / axial directions, the three
+    label lists, the grounding warning; options conv / bsubset / ref / sccoord 3x3 and CORD2R / reorder / g / tau /
+    rbe3_indep_dof), cgmass(all6=True)'s principal axes (Model/RigidBodyPrinc.lean, Jacobi in the driver),
+    cb.rbmultchk on exact rational data through C18's model of find_xyz_triples (Model/RigidBodyMult.lean: scale of the
+    modes, coordinates, unit scales, flagged rows, NULL rows, errors), the dispatch of cb.cbcheck
+    (Model/RigidBodyCheck.lean: input errors, order of conversion and reordering, bref inside the b-set, rb_norm=None,
+    em_filt print filter, reorder=False with the b-set anywhere), cb.cbcoordchk called directly (rb_normalizer, 3-2-1
+    reference sets, unsorted b-set, no modal DOF),
+  * translator harness/translate/c06_cbconsts.py: the tolerances / defaults / unit factors of cb.py (+ two of n2p.py) ->
+    Generated/RigidBodyConsts.lean, used by the models and by the theorem conv_factors_inverse.
 The model-free oracle compares the same API results with the generator's ground truth (incl. the printed tables, free-free
 frequencies against the QZ spectrum of the full pencil, mk_net_drms against resultants / rigid mass / cg motion), requires
 grounded / geometry-perturbed variants to be flagged, checks the cbtf equations of motion and the inverse / invariance laws
@@ -27,10 +37,11 @@ import warnings
 
 import numpy as np
 
-from runner import Infra
+from runner import Infra, TieBroken
 
 ID = "C06"
-LEAN_MODULES = ["PyYetiVerif.Props.C06", "PyYetiVerif.Props.C06b", "PyYetiVerif.Props.C06c", "PyYetiVerif.Audit.C06"]
+LEAN_MODULES = ["PyYetiVerif.Props.C06", "PyYetiVerif.Props.C06b", "PyYetiVerif.Props.C06c", "PyYetiVerif.Props.C06d",
+                "PyYetiVerif.Props.C06e", "PyYetiVerif.Props.C06f", "PyYetiVerif.Props.C06g", "PyYetiVerif.Audit.C06"]
 AUDIT_FILE = "PyYetiVerif/Audit/C06.lean"
 THEOREMS = ["PyYetiVerif.C06." + n for n in (
     "cgmass_recovers cgmass_recovers_general rbmove_comp rbmove_rbgeom reorder_pv_perm reorder_perm "
@@ -40,7 +51,13 @@ THEOREMS = ["PyYetiVerif.C06." + n for n in (
     # rbmultchk, cbtf at 0 Hz
     "guyan_preserves_eigenpairs guyanK_eq_blocks psiResid_eq_blocks guyanExpand_rows null_trim_sound nullExpand_rows "
     "coordchk_trim_sound trimRef_spec rbdispchk_recovers_coords rbdispchk_recovers_grid coordchk_coords_local net_force_is_resultant "
-    "net_drm_is_resultant net_force_is_resultant_local rbmult_eq_mul cbtf_static_limit cbtfStaticFrc_eq"
+    "net_drm_is_resultant net_force_is_resultant_local rbmult_eq_mul cbtf_static_limit cbtfStaticFrc_eq "
+    # second extension: mk_net_drms as a whole (C06d), principal inertias (C06e), rbmultchk's scale / coordinates (C06f),
+    # cbcheck as decision logic and data recovery matrices under cbreorder / cbconvert (C06g)
+    "net_ifltm_is_interface_resultant net_ifltm_units rbe3_normal_reproduces net_ifatm_is_rb_acceleration_of_interface resultant_force_ref_indep cgatm_translation_rows_are_cg_acceleration cgatm_rotation_rows_are_moment_about_offset cgatm_rotation_rows_reference_counterexample cglf_is_weight_normalised cglf_moment_rows_match_shear tsc2lv_blocks mk_net_drms_fields "
+    "eigh_spec_charpoly principal_inertias_invariant principal_inertias_ref_indep rotated_mass_blocks principal_gyr_eq eighResid_spec "
+    "find_xyz_triples_segs rbScale2_grids rbmultchk_scale_and_coords rbmultchk_flags_nonrigid "
+    "role_after_reorder convert_reorder_commute cbcheck_errors cbcheck_returns_def cbcheck_option_independence cbcheck_no_modal_dof convert_qq_diag_invariant cbcheck_frq_conv_invariant flippv_order_indep reorder_drm_response convert_drm_response convert_drm_roundtrip conv_factors_inverse"
 ).split()]
 TRUSTED = [
     "correspondence harness harness/props/c06.py (numeric comparison 1e-9*scale, exact for index vectors / trimmed DOF lists / "
@@ -50,13 +67,19 @@ TRUSTED = [
     "run; the Float driver uses its own Gaussian elimination, and the adjugate inverse for the 3x3 systems of _rbdispchk",
     "eigen-solver specification: scipy.sparse.linalg.eigsh(k, p, m, sigma=1) returns eigenpairs of the REDUCED pencil, the "
     "first six spanning null(K) of a free model (rbe is compared with the model's stiffness-based modes; the back-expanded "
-    "vectors are checked against the FULL pencil and its QZ spectrum by the oracle); scipy.linalg.eigh inside cgmass(all6) "
-    "(principal inertias / radii are compared with numpy eigvalsh of the ground truth only)",
+    "vectors are checked against the FULL pencil and its QZ spectrum by the oracle)",
     "ode.SolveUnc.fsolve specification (property C02): cbtf's q-set solve is checked by the oracle's EOM residual; at 0 Hz "
     "the specification is Kqq dq = -Mqb a (the harness solves the model's right-hand side)",
-    "n2p.addgrid / make_uset produce the uset rows (inputs of the model; their geometry is property C14); n2p.formrbe3 and "
-    "n2p.find_xyz_triples (used by mk_net_drms.ifatm and rbmultchk's printed coordinates) are property C14 and enter the "
-    "oracle only",
+    "n2p.addgrid / make_uset produce the uset rows (inputs of the model; their geometry is property C14); n2p.formrbe3 is "
+    "modelled for the configuration mk_net_drms uses (dependent basic grid at `ref`, unit weights, rotations scaled by Lc^2) "
+    "through its normal equations, solved in the Float driver by Gaussian elimination (residual measured every run; C14 proves "
+    "the general routine); n2p.find_xyz_triples is C18's exact-rational model (read-only), its floating-point decisions within "
+    "1e-9 of a threshold are reported `borderline` and skipped",
+    "linalg.solve(Mcg, .) of mk_net_drms and linalg.eigh of cgmass(all6) enter through stated specifications (Mcg X = B; "
+    "V orthonormal, V'IV = diag(w), w ascending) - the driver's own Gaussian elimination / cyclic Jacobi iteration with the "
+    "residuals measured every run (<= 1e-9 / 1e-12)",
+    "translator harness/translate/c06_cbconsts.py (Python ast, no execution of repo code) and the committed snapshot "
+    "Generated/RigidBodyConsts.lean; numpy's allclose defaults rtol = 1e-5, atol = 1e-8 are numpy's, not the source's",
     "ytools.mattype symmetry test inside cgmass is not modelled (inputs are symmetric; an asymmetric probe must raise)",
 ]
 RULE = (
@@ -70,9 +93,16 @@ RULE = (
     "DOF / grounded through one DOF / misplaced boundary grid; 40% with one special boundary grid: massless6, massless-rot, "
     "pinned, and the pinned grid as reference = RuntimeError), _solve_eig (symmetric pencils with 0-3 null columns and 0-4 "
     "massless DOF, also -0.0 entries), rbdispchk (1-5 nodes in identity / rotated / general bases, exact rows and small or "
-    "large deviations around the warning threshold, three tolerances), mk_net_drms (generated structures, b-set in any "
-    "order, conv, bsubset, ref by id/vector/origin, sccoord rotation), rbmultchk (bset first/last/vector/full rb), cbtf at "
-    "0 Hz (b-set first/last/interleaved/permuted, full damping). A case is one call "
+    "large deviations around the warning threshold, three tolerances), mk_net_drms as a whole (generated structures, b-set in "
+    "any order, conv None/m2e/e2m/tuple, bsubset, ref by id/vector/origin, sccoord as 3x3 rotation or CORD2R card, reorder "
+    "on/off incl. bsubset under reorder, g default/other, tau g / natural units / mixed, rbe3_indep_dof None/123456, one to "
+    "four interface grids, axial direction x/y/z, l/v rows replaced or not), cgmass principal axes (same cases as cgmass), "
+    "rbmultchk (bset first/last/vector/full rb; exact stream: nodes in any local system / scale / order recovered from one of "
+    "1-2 boundary grids, mixed with rotation rows, NULL rows, modal-only rows and non-rigid triples, b-set columns "
+    "first/last/vector, errors bset string / zero scale), cbcheck input errors (uset size, non-ascending bseto) and em_filt "
+    "0 / positive, reorder=False with the b-set first/last/interleaved, cbcoordchk directly (reference = one grid or a 3-2-1 "
+    "translation set over three grids with rb_normalizer, b-set in any grid order, with / without modal DOF), cbtf at "
+    "0 Hz (b-set first/last/interleaved/permuted, full damping, no modal DOF). A case is one call "
     "compared on all returned quantities; non-trivial = not the identity configuration (a non-zero offset / "
     "non-basic system / non-sorted bseto / conversion / at least one mode / a trimmed DOF); distinct by the generated input"
 )
@@ -84,19 +114,34 @@ ASSUMPTIONS = [
     "translation block of rbdispchk singular (scipy raises LinAlgError) - outside the generated domain, the model replies "
     "raise-singular",
     "uset tables list their grids by ascending id; mk_net_drms(reorder=False) takes the uset in the order of the bset vector, "
-    "cbcheck in ascending matrix position; an RBE3 on the translations of exactly two boundary grids is rank deficient, so "
-    "rbe3_indep_dof=123456 is passed there",
+    "cbcheck and mk_net_drms(reorder=True) in ascending matrix position (bsubset then counts uset rows); an RBE3 on the "
+    "translations of exactly two boundary grids is rank deficient, so rbe3_indep_dof=123456 is passed there; `sccoord` is a "
+    "rotation (3x3) or a rectangular CORD2R card - a cylindrical / spherical s/c system is outside the model",
+    "mk_net_drms decisions (axial direction, replacement of the l/v rows, grounding warning) are compared exactly unless the "
+    "two candidates are within round-off of each other (skipped and counted)",
+    "rbmultchk exact stream: inputs are multiples of 1/400 (rotations from 3-4-5 triples and signed permutations, scales "
+    "1/2, 1, 2, 4); a non-rigid triple followed directly by a node can be paired with that node's rows by find_xyz_triples "
+    "(documented 'can be tricked'): the correspondence follows the model there, the oracle puts a NULL row behind it",
     "a printed comparison next to a threshold (refpoint_chk, rbdispchk warning) within 1e-6..1e-3 relative is skipped and counted",
 ]
 PARTIAL = (
-    "partial: eigsh/eigh/solve/fsolve are external kernels entering through stated specifications (residuals measured at run "
-    "time): guyan_preserves_eigenpairs / null_trim_sound take eigenpairs of the reduced pencil as given, rbe and the free-free "
-    "frequencies are compared numerically (model's stiffness-based modes, QZ spectrum); principal inertias / principal radii of "
-    "gyration (eigh in cgmass) and mk_net_drms' ifatm (formrbe3), cgatm (a linear solve), cglf rows and labels, rbmultchk's "
-    "coordinate detection (find_xyz_triples) are not modelled - oracle only; the printed report is by nature comparable at print "
-    "precision only; rbdispchk's 3x3 solve is modelled by the adjugate inverse (numeric tie); "
-    "net_force_is_resultant_local covers rectangular output systems (cylindrical / spherical ones through the numeric stream); "
-    "cbcheck(reorder=False) with the b-set not leading is the open finding F33"
+    "partial: eigsh/eigh/solve/fsolve/formrbe3's normal-equation solve are external kernels entering through stated "
+    "specifications (residuals measured at run time): guyan_preserves_eigenpairs / null_trim_sound take eigenpairs of the reduced "
+    "pencil as given, rbe and the free-free frequencies are compared numerically (model's stiffness-based modes, QZ spectrum); "
+    "principal_inertias_invariant / principal_gyr_eq are relative to the eigh specification (V orthonormal, V'IV = diag w, w "
+    "ascending), rotated_mass_blocks is stated on Mathlib block matrices (not through the NMat code of cgmass); "
+    "net_ifatm_is_rb_acceleration_of_interface takes the RBE3 reproduction property X RB = 1 from rbe3_normal_reproduces "
+    "(invertible normal matrix); net_ifltm_is_interface_resultant / net_ifltm_units / the cgatm theorems cover rectangular "
+    "output systems of the interface grids (cylindrical / spherical ones through the numeric stream) and a 3x3 / CORD2R "
+    "sccoord; the labels of mk_net_drms are tied exactly but not the subject of a theorem (String.replace does not reduce in "
+    "the kernel); rbmultchk_flags_nonrigid states the tolerance rule for a matrix that consists of the one candidate triple "
+    "(general mixtures through the exact stream), find_xyz_triples_segs needs the non-node rows to have NO translation part "
+    "(a lone translation row can be paired with its neighbours - the routine's documented limitation); cbcheck_returns_def / "
+    "cbcheck_option_independence cover the fields that need no dense kernel (rbs, rbe and the report are assembled by the "
+    "driver from the proved pieces and tied numerically); the printed reports are by nature comparable at print precision "
+    "only; rbdispchk's 3x3 solve is modelled by the adjugate inverse (numeric tie). Open findings: F46 (cgatm rotation rows, "
+    "formal side cgatm_rotation_rows_reference_counterexample) and the new cbcheck em_filt IndexError "
+    "(cbcheck_emfilt_empty_raises models the code as it is)"
 )
 MANIFEST = {
     "level_text": "Proof (Lean 4, standard axioms) about a polymorphic executable model of the rigid-body and "
@@ -125,20 +170,66 @@ MANIFEST = {
     "reference grid in the reference grid's local axes (coordchk_coords_local); mk_net_drms' rb.T @ F is the resultant force and moment at the "
     "reference point, also applied through Mcb[b] to any response vector and for local rectangular output systems "
     "(net_force_is_resultant, net_drm_is_resultant, net_force_is_resultant_local); rbmultchk's product (rbmult_eq_mul). "
-    "Tied to the source by numeric correspondence on generated free structures and direct API streams.",
+    "Second extension: mk_net_drms is modelled as a whole (mkNetDrms; mk_net_drms_fields states every output in terms of the "
+    "pieces): ifltma @ a + ifltmd @ d is the resultant interface force about `ref` for grids in rectangular output systems "
+    "(net_ifltm_is_interface_resultant), the l/v-unit matrix is the converted s/c one times the force / moment factor "
+    "(net_ifltm_units), an RBE3 that solves formrbe3's normal equations reproduces rigid-body motion and ifatm applied to a "
+    "rigid interface acceleration returns it, in g after the division (rbe3_normal_reproduces, "
+    "net_ifatm_is_rb_acceleration_of_interface), cgatm rows 0-2 times the mass are the net force whatever point rbcg is formed "
+    "about (cgatm_translation_rows_are_cg_acceleration), rows 3-5 times the inertia are the moment about the point whose BASIC "
+    "coordinates are cg_sc - the offset from `ref`, not the cg (cgatm_rotation_rows_are_moment_about_offset), with the "
+    "concrete counterexample for ref != origin (cgatm_rotation_rows_reference_counterexample, the formal side of F46); the cglf "
+    "rows are cgatm rows and +-moment/(weight*height) (cglf_is_weight_normalised) and for a cg on the axial axis the "
+    "moment-based rows equal the lateral force over the weight in all six axis / direction cases "
+    "(cglf_moment_rows_match_shear); Tsc2lv blocks (tsc2lv_blocks). cgmass(all6): the principal inertias are determined by "
+    "the eigh specification, equal for I and R'IR and are those of the cg inertia for every reference point "
+    "(principal_inertias_invariant, principal_inertias_ref_indep, rotated_mass_blocks, eigh_spec_charpoly, eighResid_spec), "
+    "principal radii sqrt(w/m) (principal_gyr_eq). rbmultchk: for a response matrix made of node triples in any order among "
+    "rows without translation part find_xyz_triples marks exactly the node rows with location and scale "
+    "(find_xyz_triples_segs, on C18's model), the scale of six-row-per-grid rigid-body modes is their unit scale "
+    "(rbScale2_grids), together (rbmultchk_scale_and_coords), and a candidate whose rotation block violates the two allclose "
+    "tests stays blank (rbmultchk_flags_nonrigid). cbcheck as decision logic (cbcheckM): when it raises (cbcheck_errors), what "
+    "it returns (cbcheck_returns_def), rb_norm / em_filt / n_freefree_modes cannot change the returned matrices and tables nor "
+    "make the call fail (cbcheck_option_independence), converting then reordering = reordering then converting with the new b-set (convert_reorder_commute, "
+    "role_after_reorder), cb_frq unchanged by conv and by the b-set order (convert_qq_diag_invariant, "
+    "cbcheck_frq_conv_invariant, flippv_order_indep), nq = 0 (cbcheck_no_modal_dof); data recovery matrices: response unchanged "
+    "by cbreorder(drm=True) and cbconvert(drm=True), round trip (reorder_drm_response, convert_drm_response, "
+    "convert_drm_roundtrip); the string unit factors are mutually inverse (conv_factors_inverse, on the translated constants). "
+    "Tied to the source by numeric / exact correspondence on generated free structures and direct API streams and by the "
+    "constants translator.",
     "level_note": "Trusted: Lean kernel; propext, Classical.choice, Quot.sound; the Python harness and its structure "
     "generator; specifications of solve/eigsh/eigh/fsolve (measured each run). Floating-point round-off is outside the "
     "theorems (measured by the 1e-9 correspondence). Only tied / measured, not proved: eigsh's eigenpairs of the reduced pencil "
     "(checked against the full pencil and its QZ spectrum), rbe, free-free frequencies, principal inertias, the printed report "
-    "(every numeric table parsed and compared with the model and with ground truth at print precision), mk_net_drms ifatm / "
-    "cgatm / weight / height (oracle against rigid-body ground truth), rbmultchk's printed coordinates. Open findings reported "
-    "by the oracle: F33 (cbcheck reorder=False, b-set not leading) and four new families (mk_net_drms reorder with a "
-    "non-involution order, mk_net_drms cgatm rotational rows for ref != origin, mk_net_drms ifatm for a single grid not in "
-    "columns 0..5, cbcheck without modal DOF).",
+    "(every numeric table parsed and compared with the model and with ground truth at print precision), the label lists of "
+    "mk_net_drms (exact tie), the kernels behind ifatm / cgatm / principal axes (the driver's own solvers, residuals measured), "
+    "rbmultchk's report on matrices outside the proved family (exact stream through C18's model of find_xyz_triples), "
+    "cylindrical / spherical interface grids in mk_net_drms. Open finding reported by the oracle: F46 (mk_net_drms cgatm "
+    "rotational rows for ref != origin); found by this extension and repaired in /repo: F66 (cbcheck em_filt IndexError).",
     "technique": "Lean 4 proof (ring/field identities on explicit 6x6 entries, Mathlib block-matrix algebra, "
-    "permutation matrices, Schur complements, reuse of C14's 3x3 frame lemmas) + numeric differential correspondence with "
-    "pyyeti.cb / n2p on generated structures, incl. full parsing of cbcheck's report",
+    "permutation matrices, Schur complements, characteristic polynomials, reuse of C14's 3x3 frame lemmas and of C18's "
+    "find_xyz_triples model) + numeric / exact-rational differential correspondence with pyyeti.cb / n2p on generated "
+    "structures, incl. full parsing of the cbcheck and rbmultchk reports, + Python-ast translator for the constants of cb.py",
 }
+
+
+def translate(ctx):
+    """tolerances, thresholds, defaults and unit factors of cb.py (+ two of n2p.py) -> Generated/RigidBodyConsts.lean"""
+    import sys
+
+    tdir = os.path.join(ctx.verif, "harness", "translate")
+    if tdir not in sys.path:
+        sys.path.insert(0, tdir)
+    import c06_cbconsts as tr
+
+    try:
+        names, consts = tr.run(ctx.repo, ctx.lean)
+    except tr.Unparsable as e:
+        raise TieBroken("the constants of cb.py / n2p.py no longer fit the translator's grammar: %s" % e)
+    except (OSError, SyntaxError) as e:
+        raise TieBroken("cannot read cb.py / n2p.py: %s" % e)
+    ctx.extra["generated_constants"] = consts
+    return names
 
 
 # ---------------------------------------------------------------------------------------
@@ -360,6 +451,18 @@ M2E = (39.37007874015748, 0.005710147154735817)  # cbconvert docstring table
 E2M = (0.0254, 175.12683524637913)
 
 
+def conv_code(conv):
+    """how a `conv` argument travels to the driver: the two strings by name (the model then uses the factors the
+    translator extracted from `_get_conv_factors`), a tuple by value"""
+    if conv is None:
+        return "0"
+    if conv == "m2e":
+        return "2"
+    if conv == "e2m":
+        return "3"
+    return "1 " + bits([float(conv[0]), float(conv[1])])
+
+
 def conv_factors(conv):
     if conv is None:
         return None
@@ -410,10 +513,9 @@ def gen_spec(rng, tier_big=False):
     if spec["reorder"] and nbg > 1 and rng.random() < 0.75:
         perm = [int(x) for x in rng.permutation(nbg)]
     spec["gridperm"] = perm
-    if not spec["reorder"]:
-        # cbcheck(reorder=False) is only right with the b-set leading (finding F33,
-        # cbcheck-noreorder-bset-not-leading, probed by the oracle); keep the other streams inside
-        spec["layout"] = "first"
+    # (reorder=False with the b-set last / interleaved is inside the domain since the fix 666dd84, finding F33)
+    # effective-mass print filter: only which rows of the table are printed
+    spec["em_filt"] = [0, 0, 0, float(np.round(10 ** rng.uniform(-1, 1.4), 3))][int(rng.integers(0, 4))]
     return spec
 
 
@@ -605,7 +707,7 @@ def pencil_truth(Kcb, Mcb, nb):
                 null=[int(i) for i in np.setdiff1d(np.arange(n), keep)], massless=[int(i) for i in np.nonzero(~xm)[0]])
 
 
-def run_cbcheck(case):
+def run_cbcheck(case, extra=None):
     from pyyeti import cb
 
     spec = case["spec"]
@@ -619,7 +721,7 @@ def run_cbcheck(case):
         warnings.simplefilter("ignore")
         out = cb.cbcheck(f, case["Min"].copy(), case["Kin"].copy(), case["bseto"].copy(), case["bref"].copy(),
                          case["uset"], uref=case["uref"], conv=conv, rb_norm=spec["rbnorm"],
-                         reorder=spec["reorder"], n_freefree_modes=nff)
+                         reorder=spec["reorder"], n_freefree_modes=nff, em_filt=spec.get("em_filt", 0), **(extra or {}))
     return out, f.getvalue()
 
 
@@ -1115,90 +1217,191 @@ def oracle_rbdisp(c):
     return out
 
 
+G0 = 9.80665 / 0.0254
+TAUS = ["g", "g", ["g", "g"], "in", ["m", "in"], ["m", "g"], ["in", "g"]]
+
+
 def net_cases(rng, n):
     cases = []
     tries = 0
     while len(cases) < n and tries < 5 * n:
         tries += 1
         spec = gen_spec(rng)
-        spec.update(variant="valid", reorder=True, rbnorm=None, uref="origin", conv=None)
+        spec.update(variant="valid", reorder=True, rbnorm=None, uref="origin", conv=None, em_filt=0)
         spec["gridperm"] = [int(x) for x in rng.permutation(spec["nbg"])]
         opt = dict(conv=[None, None, "m2e", "e2m", [float(10 ** rng.uniform(-1, 1.5)), float(10 ** rng.uniform(-2, 2))]][int(rng.integers(0, 5))],
                    sub=bool(rng.random() < 0.3 and spec["nbg"] > 1),
                    ref=str(rng.choice(["vec", "id", "origin"])),
                    sccoord=bool(rng.random() < 0.3), seed=[int(x) for x in rng.integers(0, 2 ** 31, 2)])
+        # second extension: the remaining options of the routine
+        opt["reorder"] = bool(rng.random() < 0.35)
+        opt["tau"] = TAUS[int(rng.integers(0, len(TAUS)))]
+        opt["g"] = G0 if rng.random() < 0.6 else float(np.round(10 ** rng.uniform(0, 3), 4))
+        opt["indep"] = [None, None, 123456][int(rng.integers(0, 3))]
+        opt["sc4x3"] = bool(opt["sccoord"] and rng.random() < 0.5)
         cases.append(dict(spec=spec, opt=opt))
     return cases
 
 
 def build_net(c):
-    """inputs of mk_net_drms for a generated structure: the b-set vector in any order, the uset in THAT order"""
+    """inputs of mk_net_drms for a generated structure.  reorder=False: the b-set vector in any order and the uset in THAT
+    order; reorder=True: the uset in ascending matrix position (as cbcheck takes it), bsubset counted in uset rows.
+    `out_*` describe the model the routine works on after its own reordering (b-set first, in the order of `bset`)."""
     spec, opt = c["spec"], c["opt"]
     case = build_case(spec)
     rng = np.random.default_rng(opt["seed"])
     perm = spec["gridperm"]
-    bgr = [case["bgrids"][g] for g in perm]
-    ids = [10 * (i + 1) for i in range(len(perm))]  # a uset table lists its grids by ascending id
-    uset = make_uset(case["st"], bgr, ids)
     nbg = spec["nbg"]
+    reorder = bool(opt.get("reorder"))
+    in_order = list(range(nbg)) if reorder else list(perm)  # uset grid order (indices into case["bgrids"])
+    bgr_in = [case["bgrids"][g] for g in in_order]
+    ids = [10 * (i + 1) for i in range(nbg)]  # a uset table lists its grids by ascending id
+    uset = make_uset(case["st"], bgr_in, ids)
     if opt["sub"]:
-        keepg = np.sort(rng.choice(nbg, int(rng.integers(1, nbg)), replace=False))
-        bsub = np.concatenate([np.arange(6 * g, 6 * g + 6) for g in keepg])
+        keep_in = np.sort(rng.choice(nbg, int(rng.integers(1, nbg)), replace=False))  # positions in the uset
+        bsub = np.concatenate([np.arange(6 * g, 6 * g + 6) for g in keep_in])
     else:
-        keepg, bsub = np.arange(nbg), None
+        keep_in, bsub = np.arange(nbg), None
     if opt["ref"] == "id":
-        gi = int(rng.choice(keepg))  # (a reference grid outside `bsubset` is a KeyError in rbgeom_uset)
-        ref, ref_xyz = ids[gi], case["st"]["xyz"][bgr[gi]]
+        gi = int(rng.choice(keep_in))  # (a reference grid outside `bsubset` is a KeyError in rbgeom_uset)
+        ref, ref_xyz = ids[gi], case["st"]["xyz"][bgr_in[gi]]
     elif opt["ref"] == "vec":
         ref_xyz = rng.uniform(-1, 1, 3) * case["st"]["L"]
         ref = [float(x) for x in ref_xyz]
     else:
         ref, ref_xyz = [0, 0, 0], np.zeros(3)
     sc = rand_rot(rng) if opt["sccoord"] else None
-    return dict(case=case, uset=uset, bset=case["bseto"], bsub=bsub, keepg=keepg, ref=ref, ref_xyz=np.asarray(ref_xyz, float),
-                sccoord=sc, bgr=bgr, ids=ids)
+    sc_arg = sc
+    if sc is not None and opt.get("sc4x3"):
+        # the CORD2R form: the s/c system has the axes A = sc.T (columns, in l/v basic); its origin does not matter
+        A = sc.T
+        O = rng.uniform(-1, 1, 3) * case["st"]["L"]
+        sc_arg = np.vstack([[77, 1, 0], O, O + A[:, 2], O + A[:, 0]])
+    # what the routine works on: grids in the order of `bset` (= perm), interface = the kept ones in that order
+    keep_set = set(int(in_order[g]) for g in keep_in)
+    out_grids = [case["bgrids"][g] for g in perm]
+    out_keep = [k for k, g in enumerate(perm) if g in keep_set]
+    return dict(case=case, uset=uset, bset=case["bseto"], bsub=bsub, keepg=keep_in, ref=ref, ref_xyz=np.asarray(ref_xyz, float),
+                sccoord=sc, sc_arg=sc_arg, bgr=out_grids, out_keep=out_keep, ids=ids, reorder=reorder,
+                out_ids=[ids[in_order.index(g)] for g in perm])
 
 
-def run_net(nb_, conv):
+def net_effective(nb_):
+    """the Craig-Bampton model in the DOF order of the routine's results: with reorder the b-set first (in `bset` order),
+    then the modal DOF ascending; `bset`, `sub` accordingly"""
+    case = nb_["case"]
+    n, nb = case["n"], case["nb"]
+    bset = np.asarray(nb_["bset"])
+    if nb_["reorder"]:
+        pv = np.concatenate([bset, np.setdiff1d(np.arange(n), bset)])
+        M, K, bset2 = case["Min"][np.ix_(pv, pv)], case["Kin"][np.ix_(pv, pv)], np.arange(nb)
+    else:
+        M, K, bset2 = case["Min"], case["Kin"], bset
+    sub = np.concatenate([np.arange(6 * k, 6 * k + 6) for k in nb_["out_keep"]]) if nb_["out_keep"] else np.zeros(0, int)
+    return M, K, bset2, sub
+
+
+def _tau(t):
+    return tuple(t) if isinstance(t, list) else t
+
+
+def run_net(nb_, conv, opt=None):
     from pyyeti import cb
 
     case = nb_["case"]
+    opt = opt or {}
     if isinstance(conv, list):
         conv = tuple(conv)
     with warnings.catch_warnings(record=True) as wl:
         warnings.simplefilter("always")
         # an RBE3 on the translations of two grids cannot see the rotation about the line through them
-        indep = 123456 if len(nb_["keepg"]) == 2 else None
+        indep = 123456 if len(nb_["keepg"]) == 2 else opt.get("indep")
         out = cb.mk_net_drms(case["Min"].copy(), case["Kin"].copy(), nb_["bset"].copy(), bsubset=nb_["bsub"], uset=nb_["uset"],
-                             ref=nb_["ref"], sccoord=nb_["sccoord"], conv=conv, reorder=False, g=9.80665 / 0.0254,
-                             rbe3_indep_dof=indep)
+                             ref=nb_["ref"], sccoord=nb_["sc_arg"], conv=conv, reorder=nb_["reorder"], g=opt.get("g", G0),
+                             tau=_tau(opt.get("tau", "g")), rbe3_indep_dof=indep)
     grounding = any("grounding forces" in str(w.message) for w in wl)
-    return out, grounding
+    replaced = any("no l/v axis lines up" in str(w.message) for w in wl)
+    return out, grounding, replaced
 
 
-def net_request(nb_, conv, mat):
+def net_request(nb_, opt):
     case = nb_["case"]
-    cf = conv_factors(conv)
     n, nb = case["n"], case["nb"]
     sub = nb_["bsub"] if nb_["bsub"] is not None else np.arange(nb)
-    parts = ["netdrm", str(nb), str(len(sub)), str(n), ("1 " + bits(cf)) if cf else "0", ints(nb_["bset"]), ints(sub),
-             bits(nb_["uset"].loc[:, "x":"z"].values), bits(nb_["ref_xyz"]), bits(mat)]
+    tau = opt.get("tau", "g")
+    tau = (tau, tau) if isinstance(tau, str) else tuple(tau)
+    indep = 123456 if len(nb_["keepg"]) == 2 else opt.get("indep")
+    parts = ["netfull", str(nb), str(len(sub)), str(n), conv_code(opt["conv"]), "1" if nb_["reorder"] else "0",
+             ("1 " + bits(nb_["sccoord"])) if nb_["sccoord"] is not None else "0", bits([opt.get("g", G0)]), tau[0], tau[1],
+             str(indep or 0), ints(nb_["bset"]), ints(sub), bits(nb_["uset"].loc[:, "x":"z"].values), bits(nb_["ref_xyz"]),
+             bits(case["Min"]), bits(case["Kin"])]
     return " ".join(parts)
+
+
+NET_FIELDS = (("ifltma_sc", 6, "n"), ("ifltmd_sc", 6, "nb"), ("ifltma_lv", 6, "n"), ("ifltmd_lv", 6, "nb"), ("ifatm_sc", 6, "n"),
+              ("ifatm_lv", 6, "n"), ("cgatm_sc", 6, "n"), ("cgatm_lv", 6, "n"), ("cglfa", 14, "n"), ("cglfd", 14, "nb"))
+
+
+def parse_net_reply(rep, n, nb, nbi):
+    head, _, lab = rep.partition(" # ")
+    t = head.split(" ")
+    sizes = [(nm, r, {"n": n, "nb": nb}[c]) for nm, r, c in NET_FIELDS]
+    nfl = sum(r * c for _, r, c in sizes) + 4 + 3 + 3 + 6 * nbi + 6 * nb + 2
+    if len(t) != nfl + 4:
+        raise Infra("C06 driver: netfull reply has %d tokens, expected %d" % (len(t), nfl + 4))
+    v = unbits(t[:nfl])
+    out, k = {}, 0
+    for nm, r, c in sizes:
+        out[nm] = v[k:k + r * c].reshape(r, c)
+        k += r * c
+    out["weight_sc"], out["height_sc"], out["weight_lv"], out["height_lv"] = v[k:k + 4]
+    k += 4
+    out["cg_sc"], out["cg_lv"] = v[k:k + 3], v[k + 3:k + 6]
+    k += 6
+    out["rb"] = v[k:k + 6 * nbi].reshape(nbi, 6)
+    k += 6 * nbi
+    out["rb_all"] = v[k:k + 6 * nb].reshape(nb, 6)
+    k += 6 * nb
+    out["rbe3_resid"], out["cg_resid"] = v[k:k + 2]
+    ii = [int(x) for x in t[nfl:]]
+    out["scaxial_sc"], out["scaxial_lv"], out["replace"], out["grounding"] = ii[0], ii[1], bool(ii[2]), bool(ii[3])
+    labels = lab.split("|")
+    out["ifltm_labels"], out["ifatm_labels"], out["cglf_labels"] = labels[:12], labels[12:24], labels[24:]
+    return out
+
+
+def _ax_labels(ax, s, kind):
+    """the twelve-label blocks of the mk_net_drms docstring, written out independently: `kind` 'ifltm' or 'ifatm'"""
+    xyz = "XYZ"
+    out = []
+    if kind == "ifltm":
+        for i in range(3):
+            out.append("I/F %s F%s %s" % ("Axial Frc  " if i == ax else "Lateral Frc", xyz[i], s))
+        for i in range(3):
+            out.append("I/F %s M%s %s" % ("Torsion    " if i == ax else "Moment     ", xyz[i], s))
+    else:
+        for i in range(3):
+            out.append("I/F %s   %s %s (g)" % ("Axial  " if i == ax else "Lateral", xyz[i], s))
+        for i in range(3):
+            out.append("I/F %s R%s %s (r/s^2)" % ("Torsion " if i == ax else "Rotation", xyz[i], s))
+    return out
 
 
 def oracle_net(c):
     """mk_net_drms against the generator's ground truth: net force = resultant at the reference point of the boundary
     forces, rigid-body acceleration gives the rigid mass / unit interface acceleration / the cg motion, weight, height,
-    unit conversion keeps the physics"""
+    unit conversion keeps the physics; the cg load factors are the cg accelerations in g and the moment-based ones match
+    the shear-based ones for a force through the cg; labels; every option (reorder, tau, g, sccoord forms)"""
     out = []
     inp = {"kind": "netdrm", "spec": c["spec"], "opt": c["opt"]}
     nb_ = build_net(c)
     case, opt = nb_["case"], c["opt"]
     st = case["st"]
-    tags = [t for t, on in (("conv", opt["conv"] is not None), ("bsubset", opt["sub"]), ("sccoord", opt["sccoord"])) if on]
+    tags = [t for t, on in (("conv", opt["conv"] is not None), ("bsubset", opt["sub"]), ("sccoord", opt["sccoord"]),
+                            ("reorder", opt.get("reorder")), ("tau", opt.get("tau", "g") not in ("g", ["g", "g"]))) if on]
     fam = "mk_net_drms-" + ("-".join(tags) if tags else "plain")
     try:
-        res, grounding = run_net(nb_, opt["conv"])
+        res, grounding, replaced = run_net(nb_, opt["conv"], opt)
     except Exception as e:  # noqa: BLE001
         _fail(out, fam + "-raises-" + type(e).__name__, "mk_net_drms raises on a well-formed model", inp, repr(e)[:200], "a result")
         return out
@@ -1207,25 +1410,27 @@ def oracle_net(c):
         _fail(out, fam + "-grounding-warning", "mk_net_drms warns about grounding forces on a free model with exact geometry", inp,
               "RuntimeWarning", "no warning")
     n, nb = case["n"], case["nb"]
-    bset = np.asarray(nb_["bset"])
-    g0 = 9.80665 / 0.0254
+    M, K, bset, sub = net_effective(nb_)
+    g0 = float(opt.get("g", G0))
+    tau = opt.get("tau", "g")
+    tau = (tau, tau) if isinstance(tau, str) else tuple(tau)
     cf = conv_factors(opt["conv"])
     lc, mc = cf if cf else (1.0, 1.0)
+    # translational rows of ifatm / cgatm: in g, or back in the natural units of the model when tau is not 'g'
+    usc = (1 / g0) if tau[0] == "g" else (1 / lc)
+    ulv = (1 / g0) if tau[1] == "g" else 1.0
     # physical truth in s/c units: boundary rows of T (identity), generator geometry
     RB = np.vstack([(st["G"][6 * g:6 * g + 6, 6 * g:6 * g + 6]).T @ rb6(st["xyz"][g], nb_["ref_xyz"]) for g in nb_["bgr"]])  # nb x 6
-    sub = nb_["bsub"] if nb_["bsub"] is not None else np.arange(nb)
-    M, K = case["Min"], case["Kin"]
+    full = len(sub) == nb
     rng = np.random.default_rng(opt["seed"] + [5])
     acc = rng.standard_normal(n)
     Fb = M[bset[sub]] @ acc  # boundary forces on the interface subset for this acceleration
     want = RB[sub].T @ Fb
-    T6 = np.eye(6)
-    if nb_["sccoord"] is not None:
-        T6 = np.zeros((6, 6))
-        T6[:3, :3] = nb_["sccoord"]
-        T6[3:, 3:] = nb_["sccoord"]
-        T6 = T6  # Tsc2lv = Tlv2sc.T with Tlv2sc = blockdiag(sccoord): lv = sccoord.T @ sc
-        T6 = np.block([[nb_["sccoord"].T, np.zeros((3, 3))], [np.zeros((3, 3)), nb_["sccoord"].T]])
+    T3 = nb_["sccoord"].T if nb_["sccoord"] is not None else np.eye(3)
+    T6 = np.block([[T3, np.zeros((3, 3))], [np.zeros((3, 3)), T3]])  # Tsc2lv = blockdiag(sccoord, sccoord).T
+    if not _close(res.Tsc2lv, T6, 1e-12, 1.0)[0]:
+        _fail(out, fam + "-Tsc2lv", "Tsc2lv is not the transpose of the transform defined by `sccoord` (3x3 or CORD2R form)", inp,
+              np.asarray(res.Tsc2lv).tolist(), T6.tolist())
     fsc = max(np.abs(want).max(), 1e-300)
     # s/c matrix: with conv it takes l/v-unit accelerations (DRM conversion), forces stay in s/c units
     Cd = np.ones(n)
@@ -1242,7 +1447,16 @@ def oracle_net(c):
     if not _close(got, T6 @ (Dn * want), 1e-9, np.abs(Dn * want).max())[0]:
         _fail(out, fam + "-net-force-lv", "ifltma_lv @ a (l/v units and axes) is not the converted, rotated resultant", inp,
               got.tolist(), (T6 @ (Dn * want)).tolist())
-    if nb_["bsub"] is None:
+    if not (np.array_equal(res.ifltma, np.vstack((res.ifltma_sc, res.ifltma_lv))) and np.array_equal(res.ifltmd, np.vstack((res.ifltmd_sc, res.ifltmd_lv)))
+            and np.array_equal(res.ifatm, np.vstack((res.ifatm_sc, res.ifatm_lv)))):
+        _fail(out, fam + "-stacking", "ifltma / ifltmd / ifatm are not the s/c rows followed by the l/v rows", inp, None, None)
+    for nm in ("ifatm", "cgatm"):
+        a_, b_ = getattr(res, nm + "_lv"), T6 @ getattr(res, nm + "_sc")
+        b_[:3] *= ulv / usc
+        if not _close(a_, b_, 1e-9, max(np.abs(b_).max(), 1e-300))[0]:
+            _fail(out, fam + "-lv-rows", "%s_lv is not %s_sc turned by Tsc2lv (translational rows in the units `tau` asks for)" % (nm, nm), inp,
+                  float(np.abs(a_ - b_).max()), 0.0)
+    if full:
         ksc = max(np.abs(K).max(), 1e-300) * max(1.0, np.abs(RB).max())
         if np.abs(res.ifltmd_sc).max() > 1e-8 * ksc or np.abs(res.ifltmd_lv).max() > 1e-8 * ksc * mc * lc * lc * max(1.0, 1 / lc):
             _fail(out, fam + "-ifltmd-nonzero", "displacement-dependent net force of a free model is not zero", inp,
@@ -1257,30 +1471,33 @@ def oracle_net(c):
                   got.tolist(), mass6.tolist())
         a_rb_lv = a_rb / Cd[:, None] / (np.array([lc] * 3 + [1.0] * 3) if cf else 1.0)
         # a_rb_lv: unit rigid accelerations in l/v units (1 length_lv/s^2, 1 rad/s^2) about the converted reference
-        RBlv = a_rb_lv[bset]
         got = res.ifatm_sc @ a_rb_lv
-        wantI = np.diag([1 / g0] * 3 + [1.0] * 3)
+        wantI = np.diag([usc] * 3 + [1.0] * 3)
         if not _close(got, wantI, 1e-8, 1.0)[0]:
-            # F-new: with a single boundary grid the RBE3 columns are written to columns 0..5, whatever `bset` says
+            # F47 (fixed by 75ede6d): with a single boundary grid the RBE3 columns were written to columns 0..5
             single_off = nb == 6 and not np.array_equal(np.sort(bset), np.arange(6))
             _fail(out, "mk_net_drms-ifatm-single-grid-bset-not-leading" if single_off else fam + "-ifatm",
-                  "net interface acceleration of a unit rigid-body acceleration is not the unit (in g)", inp,
-                  got.tolist(), wantI.tolist())
+                  "net interface acceleration of a unit rigid-body acceleration is not the unit (in g, or in the model's own "
+                  "units when tau is not 'g')", inp, got.tolist(), wantI.tolist())
         masses = st["masses"]
         if not c["spec"]["aniso"]:
             cg = (masses[:, None] * st["xyz"]).sum(axis=0) / masses.sum()
             dcg = (cg - nb_["ref_xyz"]) * lc
             if not _close(res.cg_sc, dcg, 1e-8, max(np.abs(dcg).max(), 1e-3 * st["L"] * lc))[0]:
                 _fail(out, fam + "-cg", "cg_sc is not the mass-weighted centroid relative to `ref`", inp, np.asarray(res.cg_sc).tolist(), dcg.tolist())
+            if not _close(res.cg_lv, T3 @ dcg, 1e-8, max(np.abs(dcg).max(), 1e-3 * st["L"] * lc))[0]:
+                _fail(out, fam + "-cg-lv", "cg_lv is not the cg offset in l/v axes", inp, np.asarray(res.cg_lv).tolist(), (T3 @ dcg).tolist())
             wantcg = rb6(dcg, np.zeros(3))
-            wantcg[:3] /= g0
+            wantcg[:3] *= usc
             got = res.cgatm_sc @ a_rb_lv
-            if not _close(got[:3], wantcg[:3], 1e-8, max(1.0 / g0, np.abs(wantcg[:3]).max()))[0]:
+            rot_ok = True
+            if not _close(got[:3], wantcg[:3], 1e-8, max(usc, np.abs(wantcg[:3]).max()))[0]:
                 _fail(out, fam + "-cgatm", "net cg acceleration of a unit rigid-body acceleration is not the motion of the cg", inp,
                       got.tolist(), wantcg.tolist())
             elif not _close(got[3:], wantcg[3:], 1e-8, 1.0)[0]:
-                # F-new: the rigid-body modes "relative to the cg" are formed about the point whose BASIC coordinates are the
-                # cg offset from `ref`; that is the cg only when `ref` is the basic origin
+                rot_ok = False
+                # F46 (open): the rigid-body modes "relative to the cg" are formed about the point whose BASIC coordinates are
+                # the cg offset from `ref`; that is the cg only when `ref` is the basic origin
                 f2 = "mk_net_drms-cgatm-rotation-rows-ref-not-origin" if np.any(nb_["ref_xyz"] != 0) else fam + "-cgatm-rotation"
                 _fail(out, f2, "rotational rows of cgatm_sc applied to a unit rigid-body acceleration are not [0 I]: the moments are "
                       "not taken about the cg", inp, got[3:].tolist(), wantcg[3:].tolist())
@@ -1290,6 +1507,57 @@ def oracle_net(c):
                 _fail(out, fam + "-weight-height", "weight / cg height", inp,
                       [float(res.weight_sc), float(res.height_sc), float(res.weight_lv), float(res.height_lv)],
                       [wl / (mc * lc), hl / lc, wl, hl])
+            # --- axial direction, labels, cg load factors
+            a_sc, a_lv = np.abs(dcg), np.abs(T3 @ dcg)
+            srt_sc, srt_lv = np.sort(a_sc), np.sort(a_lv)
+            decided = srt_sc[2] - srt_sc[1] > 1e-6 * srt_sc[2] and srt_lv[2] - srt_lv[1] > 1e-6 * srt_lv[2]
+            aligned = abs(srt_sc[2] - srt_lv[2]) <= 1e-8 + 1e-5 * srt_lv[2]
+            near_align = abs(abs(srt_sc[2] - srt_lv[2]) - (1e-8 + 1e-5 * srt_lv[2])) <= 1e-3 * (1e-8 + 1e-5 * srt_lv[2])
+            if decided:
+                ax_sc, ax_lv = int(np.argmax(a_sc)), int(np.argmax(a_lv))
+                if (int(res.scaxial_sc), int(res.scaxial_lv)) != (ax_sc, ax_lv):
+                    _fail(out, fam + "-scaxial", "scaxial_sc / scaxial_lv are not the directions of the largest cg offset component", inp,
+                          [int(res.scaxial_sc), int(res.scaxial_lv)], [ax_sc, ax_lv])
+                else:
+                    want_l = _ax_labels(ax_sc, " sc", "ifltm") + _ax_labels(ax_lv, " lv", "ifltm")
+                    if list(res.ifltm_labels) != want_l:
+                        _fail(out, fam + "-labels", "ifltm_labels do not name the axial / lateral / torsion rows", inp, list(res.ifltm_labels), want_l)
+                    want_l = _ax_labels(ax_sc, " sc", "ifatm") + _ax_labels(ax_lv, " lv", "ifatm")
+                    for rows, t_ in ((range(0, 3), tau[0]), (range(6, 9), tau[1])):
+                        if t_ != "g":
+                            for i in rows:
+                                want_l[i] = want_l[i].replace("(g)", "(%s/s^2)" % t_)
+                    if list(res.ifatm_labels) != want_l:
+                        _fail(out, fam + "-labels", "ifatm_labels do not name the rows / the translational units", inp, list(res.ifatm_labels), want_l)
+                    if not near_align:
+                        if replaced != (not aligned) or (("!lv" in res.cglf_labels[5]) != (not aligned)):
+                            _fail(out, fam + "-cglf-replace", "the l/v rows of cglf are replaced (and labelled !lv) exactly when no l/v axis is the s/c axial one",
+                                  inp, {"warning": replaced, "label": res.cglf_labels[5]}, {"replaced": not aligned})
+                        # cg load factors: a force F through the cg (resultant F, moment cg x F about ref).  With the net force rows
+                        # of the routine: rigid TRANSLATION acceleration a (l/v units) gives F = m a at the cg.
+                        at = np.zeros(6)
+                        at[:3] = np.random.default_rng(opt["seed"] + [9]).standard_normal(3)
+                        a_t = a_rb_lv @ at  # rigid translation, l/v-unit components in s/c axes
+                        for tag, axx, lo, Tm in (("sc", ax_sc, 0, np.eye(3)), ("lv", ax_lv, 5, T3)):
+                            if tag == "lv" and not aligned:
+                                continue
+                            lf = res.cglfa[lo:lo + 5] @ a_t
+                            acc3 = Tm @ at[:3] / g0  # cg acceleration in g, in the axes of this block
+                            lat = [i for i in range(3) if i != axx]
+                            # moment-based rows: the lateral force that, applied at the cg HEIGHT on the axial axis, gives the
+                            # moment of the net force about `ref`: F_lat = -(e_ax x M) / h, per unit weight (for a cg on the axis
+                            # these are the shear-based rows - "signs set to match the lateral directions")
+                            d_blk = Tm @ dcg
+                            lfm = -np.cross(np.eye(3)[axx], np.cross(d_blk, acc3)) / d_blk[axx]
+                            want5 = np.array([acc3[axx], acc3[lat[0]], acc3[lat[1]], lfm[lat[0]], lfm[lat[1]]])
+                            if not _close(lf, want5, 1e-7, max(np.abs(want5).max(), 1e-300))[0]:
+                                _fail(out, fam + "-cglf", "cglfa rows (%s) applied to a rigid translation: axial / shear rows are not the cg acceleration in g "
+                                      "or the moment-based rows are not -(e_ax x M)/(W h) in the lateral directions" % tag, inp,
+                                      lf.tolist(), want5.tolist())
+                        if not aligned and not np.array_equal(res.cglfa[5:10], res.cglfa[:5]):
+                            _fail(out, fam + "-cglf-replace", "replaced l/v rows of cglfa are not the s/c rows", inp, None, None)
+                        if np.abs(res.cglfa[10:]).max() != 0 or res.cglfa.shape[0] != 14 or res.cglfd.shape != (14, nb):
+                            _fail(out, fam + "-cglf", "cglfa / cglfd must have 14 rows, the last four blank", inp, list(res.cglfa.shape), [14, n])
     return out
 
 
@@ -1357,6 +1625,400 @@ def oracle_rbmult(seed):
         if not (np.all(np.abs(mn - rel.min(axis=0)) <= 0.6e-4 + 1e-9 * L) and np.all(np.abs(mx - rel.max(axis=0)) <= 0.6e-4 + 1e-9 * L)):
             _fail(out, "rbmultchk-coordinates", "printed extreme coordinates are not those of the recovered points (relative to the "
                   "reference of the rigid-body modes)", inp, [mn.tolist(), mx.tolist()], [rel.min(axis=0).tolist(), rel.max(axis=0).tolist()])
+    return out
+
+
+# --- rbmultchk on exact (rational) data: scale of the rigid-body modes, coordinates, unit scales, flagged rows -------------
+
+RBCHK_DEN = 400
+
+
+def _rat_rot(rng, plain=False):
+    """an orthogonal matrix with entries in {0, +-1, +-3/5, +-4/5}: a signed permutation (det +1), optionally times one
+    3-4-5 rotation about a coordinate axis"""
+    from fractions import Fraction as Fr
+
+    perm = [int(x) for x in rng.permutation(3)]
+    sg = [int(x) for x in rng.choice([-1, 1], 3)]
+    P = [[Fr(sg[i]) if perm[i] == j else Fr(0) for j in range(3)] for i in range(3)]
+    if plain or rng.random() < 0.4:
+        return P
+    c, s_ = [(Fr(3, 5), Fr(4, 5)), (Fr(4, 5), Fr(-3, 5)), (Fr(-3, 5), Fr(4, 5)), (Fr(0), Fr(1))][int(rng.integers(0, 4))]
+    ax = int(rng.integers(0, 3))
+    i, j = [(1, 2), (2, 0), (0, 1)][ax]
+    R = [[Fr(int(a == b)) for b in range(3)] for a in range(3)]
+    R[i][i], R[i][j], R[j][i], R[j][j] = c, -s_, s_, c
+    return [[sum(P[a][k] * R[k][b] for k in range(3)) for b in range(3)] for a in range(3)]
+
+
+def _fmat(rows):
+    return np.array([[float(x) for x in r] for r in rows], float)
+
+
+def rbchk_cases(rng, n, bad_safe=False):
+    """data recovery matrices whose product with the rigid-body modes is known exactly: displacement rows of nodes
+    (any local system, any output scale) recovered from one of the boundary grids, in any order, mixed with rotation
+    rows, NULL rows, rows that act on modal DOF only and triples that are NOT rigid; everything a multiple of 1/400"""
+    from fractions import Fraction as Fr
+
+    cases = []
+    for ci in range(n):
+        ngb = int(rng.integers(1, 3))
+        q4 = lambda: Fr(int(rng.integers(-40, 41)), 4)  # noqa: E731
+        ref = [q4() for _ in range(3)]
+        su0 = [Fr(1), Fr(1), Fr(2), Fr(1, 2)][int(rng.integers(0, 4))]
+        # (the grids of the rigid-body modes may carry different unit scales: the routine takes the LARGEST window norm)
+        sus = [su0 if (g == 0 or rng.random() < 0.6) else su0 * [Fr(2), Fr(1, 2)][int(rng.integers(0, 2))] for g in range(ngb)]
+        bpts = [[q4() for _ in range(3)] for _ in range(ngb)]
+        Qg = [_rat_rot(rng, plain=True) for _ in range(ngb)]
+
+        def rb6f(p, r):
+            d = [p[i] - r[i] for i in range(3)]
+            X = [[Fr(0), d[2], -d[1]], [-d[2], Fr(0), d[0]], [d[1], -d[0], Fr(0)]]  # -skew(d)
+            top = [[Fr(int(i == j)) for j in range(3)] + X[i] for i in range(3)]
+            bot = [[Fr(0)] * 3 + [Fr(int(i == j)) for j in range(3)] for i in range(3)]
+            return top + bot
+
+        def mm(A, B):
+            return [[sum(A[i][k] * B[k][j] for k in range(len(B))) for j in range(len(B[0]))] for i in range(len(A))]
+
+        def blk(Q):
+            return [[Q[i][j] if (i < 3 and j < 3) else (Q[i - 3][j - 3] if (i >= 3 and j >= 3) else Fr(0)) for j in range(6)] for i in range(6)]
+
+        rb = []
+        for g in range(ngb):
+            rb += [[sus[g] * x for x in row] for row in mm(blk(Qg[g]), rb6f(bpts[g], ref))]
+        su = max(sus)
+        nb = 6 * ngb
+        nq = int(rng.choice([0, 0, 3]))
+        segs, rows_b, rows_q = [], [], []
+        nseg = int(rng.integers(1, 7))
+        for _ in range(nseg):
+            kind = str(rng.choice(["node", "node", "node", "rot", "null", "modal", "bad"]))
+            g = int(rng.integers(0, ngb))
+            if kind in ("node", "bad", "rot"):
+                p = [q4() for _ in range(3)]
+                Qn = _rat_rot(rng)
+                sn = [Fr(1), Fr(1), Fr(2), Fr(1, 2), Fr(4)][int(rng.integers(0, 5))]
+                # motion of the point in its own axes for unit motion of the boundary grid in the grid's (scaled) axes
+                full = mm(mm(blk(Qn), rb6f(p, bpts[g])), [[x / sus[g] for x in row] for row in [list(r) for r in zip(*blk(Qg[g]))]])
+                sel = full[:3] if kind != "rot" else full[3:]
+                sel = [[sn * x for x in row] for row in sel]
+                if kind == "bad":
+                    # not a rigid combination: an extra, NON-antisymmetric coupling of the translations to the rotations
+                    e = Fr(int(rng.integers(8, 40)), 4) * (1 if rng.random() < 0.5 else -1)
+                    E = [[Fr(0)] * 6 for _ in range(3)]
+                    E[0][4] = e
+                    E[1][3] = e
+                    extra = mm(mm([[sn * x for x in r] for r in Qn], E), [[x / sus[g] for x in row] for row in [list(r) for r in zip(*blk(Qg[g]))]])
+                    sel = [[sel[i][j] + extra[i][j] for j in range(6)] for i in range(3)]
+                for r in sel:
+                    row = [Fr(0)] * nb
+                    row[6 * g:6 * g + 6] = r
+                    rows_b.append(row)
+                    rows_q.append([Fr(int(rng.integers(-8, 9)), 4) for _ in range(nq)])
+                segs.append(dict(kind=kind, p=[float(p[i] - ref[i]) for i in range(3)], scale=float(sn / su)))
+                if kind == "bad" and bad_safe:
+                    # (a window that starts INSIDE a rejected triple could pair its last rows with the next node - the
+                    # documented "can be tricked" case; a NULL row behind it keeps the generator's intent decidable)
+                    rows_b.append([Fr(0)] * nb)
+                    rows_q.append([Fr(0)] * nq)
+                    segs.append(dict(kind="null"))
+            elif kind == "null":
+                rows_b.append([Fr(0)] * nb)
+                rows_q.append([Fr(0)] * nq)
+                segs.append(dict(kind=kind))
+            else:
+                if nq == 0:
+                    continue
+                rows_b.append([Fr(0)] * nb)
+                rows_q.append([Fr(int(rng.integers(1, 9)), 4) for _ in range(nq)])
+                segs.append(dict(kind=kind))
+        if not rows_b:
+            continue
+        layout = ["first", "last", "vec"][ci % 3] if nq else "full"
+        nc = nb + nq
+        if layout == "first" or layout == "full":
+            posb = list(range(nb))
+        elif layout == "last":
+            posb = list(range(nq, nc))
+        else:
+            posb = sorted(int(x) for x in rng.choice(nc, nb, replace=False))
+        posq = [i for i in range(nc) if i not in posb]
+        drm = []
+        for rb_, rq_ in zip(rows_b, rows_q):
+            row = [Fr(0)] * nc
+            for kk, pos in enumerate(posb):
+                row[pos] = rb_[kk]
+            for kk, pos in enumerate(posq):
+                row[pos] = rq_[kk]
+            drm.append(row)
+        den = RBCHK_DEN
+        ok = all((x * den).denominator == 1 for r in drm + rb for x in r)
+        if not ok:
+            continue
+        cases.append(dict(drm_i=[[int(x * den) for x in r] for r in drm], rb_i=[[int(x * den) for x in r] for r in rb], den=den,
+                          layout=layout, posb=posb, nb=nb, nc=nc, segs=segs, su=float(su), mixed_su=len(set(sus)) > 1,
+                          first_su_small=sus[0] < su))
+    return cases
+
+
+def run_rbchk(c, bset=None, rb=None, prtnull=False):
+    from pyyeti import cb
+
+    f = io.StringIO()
+    drm = np.array(c["drm_i"], float) / c["den"]
+    rbm = np.array(c["rb_i"], float) / c["den"] if rb is None else rb
+    if bset is None:
+        bset = {"first": "first", "last": "last", "full": "first"}.get(c["layout"], None)
+        if bset is None:
+            bset = np.array(c["posb"])
+    with warnings.catch_warnings():
+        warnings.simplefilter("ignore")
+        out = cb.rbmultchk(f, drm, "DRM", rbm, bset=bset, prtnullrows=prtnull)
+    return out, f.getvalue()
+
+
+def rbchk_request(c, spec=None):
+    spec = spec or {"first": "first", "last": "last", "full": "first", "vec": "vec"}[c["layout"]]
+    nr = len(c["drm_i"])
+    parts = ["rbchk", str(c["den"]), spec, str(nr), str(c["nc"]), str(len(c["rb_i"]))]
+    if spec == "vec":
+        parts.append(str(len(c["posb"])) + " " + ints(c["posb"]))
+    parts.append(ints(c["drm_i"]))
+    parts.append(ints(c["rb_i"]))
+    return " ".join(parts)
+
+
+def _q(tok):
+    from fractions import Fraction as Fr
+
+    return None if tok == "nan" else Fr(tok)
+
+
+def parse_rbchk_reply(rep):
+    sec = [x.strip() for x in rep.split("|")]
+    head = sec[0].split()
+    if head[0] == "err":
+        return {"status": "err", "err": head[1]}
+    if head[0] == "ok-borderline":
+        return {"status": "borderline"}
+    out = {"status": "ok", "s2": _q(head[1])}
+    out["pv"] = [t == "1" for t in sec[1].split()]
+    out["coords"] = [None if r.split()[0] == "nan" else [float(_q(t)) for t in r.split()] for r in sec[2].split(";")] if sec[2] else []
+    out["us2"] = [None if t == "nan" else float(_q(t)) for t in sec[3].split()]
+    out["extremes"] = None if sec[4] == "none" else [float(_q(t)) for t in sec[4].split()]
+    out["null"] = [int(t) for t in sec[5].split()]
+    out["model_scale"] = float(_q(sec[6]))
+    out["drmrb"] = np.array([float(_q(t)) for t in sec[7].split()]).reshape(-1, 6) if sec[7] else np.zeros((0, 6))
+    return out
+
+
+def parse_rbmult_report(txt):
+    """the tables of the rbmultchk report: printed rb scale, extreme coordinates, per row (coordinates or blank, unit
+    scale, responses), NULL rows"""
+    out = {"rows": {}, "null": None}
+    m = re.search(r"rb scaling which is: (\S+)", txt)
+    out["rbscale"] = float(m.group(1)) if m else None
+    if "-- no coordinates detected --" in txt:
+        out["extremes"] = None
+    else:
+        mn = re.search(r"Minimums:(.*)", txt)
+        mx = re.search(r"Maximums:(.*)", txt)
+        out["extremes"] = [float(t) for t in re.findall(_NUM, mn.group(1))] + [float(t) for t in re.findall(_NUM, mx.group(1))] if mn and mx else "missing"
+    i = txt.find("* RB results:")
+    j = txt.find("Absolute Maximums from")
+    sect = txt[i:j]
+    k = sect.find("------")
+    for ln in sect[k:].split("\n")[1:]:
+        v = re.findall(_NUM, ln)
+        if len(v) == 11:
+            out["rows"][int(v[0]) - 1] = dict(coords=[float(t) for t in v[1:4]], scale=float(v[4]), resp=[float(t) for t in v[5:]])
+        elif len(v) == 7:
+            out["rows"][int(v[0]) - 1] = dict(coords=None, scale=None, resp=[float(t) for t in v[1:]])
+    if "There are no NULL rows in DRM." in txt:
+        out["null"] = []
+    else:
+        i = txt.find("NULL rows in DRM:")
+        if i >= 0:
+            rows = []
+            for ln in txt[i:].split("\n")[3:]:
+                v = re.findall(r"^\s*(\d+)\s*$", ln)
+                if v:
+                    rows.append(int(v[0]) - 1)
+                elif rows:
+                    break
+            out["null"] = rows
+    return out
+
+
+def oracle_rbchk(c):
+    """rbmultchk on a data recovery matrix whose product with the rigid-body modes is known: every node is listed with its
+    location (relative to the reference of the modes) and its unit scale, rotation / NULL / modal rows and triples that are
+    not rigid are blank, the extreme coordinates are those of the nodes, the scale of the modes is printed"""
+    out = []
+    inp = {"kind": "rbchk", "case": {k: c[k] for k in ("drm_i", "rb_i", "den", "layout", "posb", "nb", "nc", "segs", "su")}}
+    try:
+        got, txt = run_rbchk(c, prtnull=True)
+    except Exception as e:  # noqa: BLE001
+        _fail(out, "rbmultchk-raises-" + type(e).__name__, "rbmultchk raises on a well-formed recovery matrix", inp, repr(e)[:200], "a report")
+        return out
+    rp = parse_rbmult_report(txt)
+    if rp["rbscale"] is None or abs(rp["rbscale"] - c["su"]) > 1e-12 * c["su"]:
+        _fail(out, "rbmultchk-rbscale", "printed scale of the rigid-body modes is not their unit scale", inp, rp["rbscale"], c["su"])
+    i, pts = 0, []
+    nr = len(c["drm_i"])
+    if sorted(rp["rows"]) != list(range(nr)):
+        _fail(out, "rbmultchk-table", "the result table (prtnullrows=True) does not list every row", inp, sorted(rp["rows"]), nr)
+        return out
+    for sg in c["segs"]:
+        ln = 3 if sg["kind"] in ("node", "bad", "rot") else 1
+        rows = [rp["rows"][i + t] for t in range(ln)]
+        if sg["kind"] == "node":
+            pts.append(sg["p"])
+            for r in rows:
+                if r["coords"] is None or not np.all(np.abs(np.array(r["coords"]) - np.array(sg["p"])) <= 0.6e-4) or \
+                        abs(r["scale"] - sg["scale"]) > 1e-5 * sg["scale"]:
+                    _fail(out, "rbmultchk-node-not-found", "rows of a node that follow the rigid-body pattern are not listed with the node's "
+                          "location and unit scale", inp, r, {"coords": sg["p"], "scale": sg["scale"]})
+                    break
+        else:
+            if any(r["coords"] is not None for r in rows):
+                fam = "rbmultchk-nonrigid-not-flagged" if sg["kind"] == "bad" else "rbmultchk-coordinates-on-" + sg["kind"] + "-row"
+                _fail(out, fam, "coordinates are printed on rows that are not the rigid-body displacement of a node (%s)" % sg["kind"], inp,
+                      [r["coords"] for r in rows], "blank")
+        i += ln
+    if pts:
+        want = np.concatenate([np.min(pts, axis=0), np.max(pts, axis=0)])
+        if rp["extremes"] in (None, "missing") or not np.all(np.abs(np.array(rp["extremes"]) - want) <= 0.6e-4):
+            _fail(out, "rbmultchk-extremes", "extreme coordinates are not those of the recovered nodes", inp, rp["extremes"], want.tolist())
+    elif rp["extremes"] is not None:
+        _fail(out, "rbmultchk-extremes", "extreme coordinates printed although no node was recovered", inp, rp["extremes"], None)
+    want_null = [i for i, r in enumerate(c["drm_i"]) if not any(r)]
+    if rp["null"] != want_null:
+        _fail(out, "rbmultchk-null-rows", "list of NULL rows", inp, rp["null"], want_null)
+    return out
+
+
+# --- cb.cbcoordchk called directly ---------------------------------------------------------------------------------
+
+def coordchk_cases(rng, n):
+    """generated free structures handed to cb.cbcoordchk itself: b-set in any grid order, with / without modal DOF, the
+    reference DOF = the six DOF of one grid, or a 3-2-1 set of translations spread over three grids with `rb_normalizer`"""
+    cases = []
+    tries = 0
+    while len(cases) < n and tries < 6 * n:
+        tries += 1
+        spec = gen_spec(rng)
+        spec.update(variant="valid", reorder=True, rbnorm=None, uref="origin", conv=None, em_filt=0,
+                    kinds=[[0], [0, 1]][int(rng.integers(0, 2))])
+        if rng.random() < 0.3:
+            spec["nq"] = 0
+        spec["gridperm"] = [int(x) for x in rng.permutation(spec["nbg"])]
+        mode = "grid"
+        if spec["nbg"] >= 3 and rng.random() < 0.5:
+            mode = "3-2-1"
+        cases.append(dict(spec=spec, mode=mode, seed=[int(x) for x in rng.integers(0, 2 ** 31, 2)]))
+    return cases
+
+
+def build_coordchk(c):
+    from pyyeti.nastran import n2p
+
+    spec = c["spec"]
+    case = build_case(spec)
+    rng = np.random.default_rng(c["seed"])
+    perm = spec["gridperm"]
+    bset = case["bseto"]  # grids in `perm` order
+    nb = case["nb"]
+    pos = case["pos_b"]
+    normz = None
+    if c["mode"] == "grid":
+        g = int(rng.integers(0, spec["nbg"]))
+        ref = pos[6 * g:6 * g + 6].copy()
+        refgrids = [g]
+    else:
+        ga, gb, gc = [int(x) for x in rng.choice(spec["nbg"], 3, replace=False)]
+        ref = np.array([pos[6 * ga], pos[6 * ga + 1], pos[6 * ga + 2], pos[6 * gb + int(rng.integers(0, 3))], pos[6 * gb + int(rng.integers(0, 3))],
+                        pos[6 * gc + int(rng.integers(0, 3))]])
+        if len(set(ref.tolist())) < 6:
+            ref[4] = pos[6 * gb + ((int(ref[3] - pos[6 * gb]) + 1) % 3)]
+        refgrids = [ga, gb, gc]
+        # rb_normalizer: motion of the reference DOF for unit motion about the basic origin (docstring of cbcoordchk)
+        ids = [10 * (i + 1) for i in range(spec["nbg"])]
+        uset_b = make_uset(case["st"], [case["bgrids"][g] for g in perm], ids)  # in b-set order
+        rbg = n2p.rbgeom_uset(uset_b, [0.0, 0.0, 0.0])
+        where = {int(x): k for k, x in enumerate(bset)}
+        normz = rbg[[where[int(r)] for r in ref]]
+    return dict(case=case, bset=bset, ref=ref, normz=normz, refgrids=refgrids)
+
+
+def run_coordchk(b):
+    from pyyeti import cb
+
+    f = io.StringIO()
+    with warnings.catch_warnings():
+        warnings.simplefilter("ignore")
+        return cb.cbcoordchk(b["case"]["Kin"].copy(), np.array(b["bset"]), np.array(b["ref"]), verbose=False, outfile=f,
+                             rb_normalizer=b["normz"])
+
+
+def coordchk_request(b):
+    case = b["case"]
+    parts = ["coordchk", str(case["n"]), str(case["nb"]), ints(b["bset"]), ints(b["ref"]),
+             ("1 " + bits(b["normz"])) if b["normz"] is not None else "0", bits(case["Kin"])]
+    return " ".join(parts)
+
+
+def oracle_coordchk(c):
+    """cb.cbcoordchk on a free structure: the returned modes are rigid-body motion (K @ rbmodes = 0 with the rows where
+    the matrix has them), identity (or the normalizer) on the reference DOF, coordinates = grid locations, check 'pass'"""
+    out = []
+    inp = {"kind": "coordchk", "spec": c["spec"], "mode": c["mode"], "seed": c["seed"]}
+    b = build_coordchk(c)
+    case = b["case"]
+    st = case["st"]
+    if b["normz"] is not None and np.linalg.cond(b["normz"]) > 1e6:
+        return out
+    fam = "cbcoordchk-" + c["mode"] + ("-no-modal-dof" if case["nq"] == 0 else "")
+    try:
+        r = run_coordchk(b)
+    except Exception as e:  # noqa: BLE001
+        _fail(out, fam + "-raises-" + type(e).__name__, "cbcoordchk raises on a free structure", inp, repr(e)[:200], "a result")
+        return out
+    n, nb = case["n"], case["nb"]
+    K = case["Kin"]
+    bset = np.asarray(b["bset"])
+    # (scale of the terms that cancel in K @ RB: a single-grid interface without modal DOF has K = round-off)
+    kmax = max(np.abs(K).max(), st["kscale"])
+    sc = max(1.0, np.abs(r.rbmodes).max())
+    if r.rbmodes.shape[0] != n:
+        _fail(out, fam + "-rbmodes-rows", "rbmodes must have one row per DOF of K", inp, list(r.rbmodes.shape), [n, 6])
+        return out
+    # F67 (fixed): without modal DOF the modes came back in b-set order instead of the row order of K
+    unsorted_noq = case["nq"] == 0 and not np.array_equal(bset, np.sort(bset))
+    res = np.abs(K @ r.rbmodes).max() / (kmax * sc)
+    if not res <= 1e-7:
+        f2 = "cbcoordchk-no-modal-dof-unsorted-bset-modes-in-bset-order" if unsorted_noq else fam + "-not-rigid"
+        _fail(out, f2, "K @ rbmodes is not zero: the returned stiffness-based modes are not rigid-body motion of the model "
+              "(rows must follow the DOF order of K)", inp, float(res), "<= 1e-7 relative")
+        return out
+    want_ref = np.eye(6) if b["normz"] is None else b["normz"]
+    if not _close(r.rbmodes[np.asarray(b["ref"])], want_ref, 1e-8, max(1.0, np.abs(want_ref).max()))[0]:
+        _fail(out, fam + "-normalisation", "rbmodes on the reference DOF is not the identity / the normalizer", inp,
+              r.rbmodes[np.asarray(b["ref"])].tolist(), want_ref.tolist())
+    if r.refpoint_chk != "pass" and nb > 6:
+        _fail(out, fam + "-refchk", "refpoint_chk fails on a free model with a statically determinate reference set", inp, r.refpoint_chk, "pass")
+    perm = c["spec"]["gridperm"]
+    xyz = st["xyz"][[case["bgrids"][g] for g in perm]]
+    if c["mode"] == "grid":
+        g0 = case["bgrids"][b["refgrids"][0]]
+        want = (xyz - st["xyz"][g0]) @ st["frames"][g0]
+    else:
+        want = xyz
+    if not _close(r.coords, want, 1e-7, max(1.0, np.abs(want).max()))[0] or not np.max(r.maxerr) <= 1e-7 * max(1.0, np.abs(want).max()):
+        _fail(out, fam + "-coords", "coordinates derived from the stiffness are not the grid locations (relative to the reference grid in "
+              "its axes, or to the basic origin with rb_normalizer)", inp, np.asarray(r.coords).tolist(), want.tolist())
     return out
 
 
@@ -1468,18 +2130,20 @@ def _bref_on_pinned(spec):
     return spec.get("special") == "pinned" and spec["brefgrid"] == spec["special_pos"]
 
 
-def cbcheck_request(case):
+def cbcheck_request(case, uset=None, bseto=None, reorder=None):
     spec = case["spec"]
-    cf = conv_factors(spec["conv"])
-    parts = ["cbcheck", str(case["n"]), str(case["nb"]), ints(case["bseto"]), ints(case["bref"])]
-    parts.append("1 " + bits(cf) if cf else "0")
-    parts.append("1" if spec["reorder"] else "0")
+    parts = ["cbcheck", str(case["n"]), str(case["nb"]), ints(bseto if bseto is not None else case["bseto"]), ints(case["bref"])]
+    parts.append(conv_code(spec["conv"]))
+    parts.append("1" if (spec["reorder"] if reorder is None else reorder) else "0")
     parts.append({None: "-1", True: "1", False: "0"}[spec["rbnorm"]])
+    parts.append(bits([spec.get("em_filt", 0)]))
     if spec["uref"] == "id":
         parts.append("1 %d" % (6 * spec["brefgrid"]))
     else:
         parts.append("0 " + bits(case["uref_xyz"]))
-    parts.append(bits(case["uset"].loc[:, "x":"z"].values))
+    uvals = (uset if uset is not None else case["uset"]).loc[:, "x":"z"].values
+    parts.append(str(uvals.shape[0]))
+    parts.append(bits(uvals))
     parts.append(bits(case["Min"]))
     parts.append(bits(case["Kin"]))
     return " ".join(parts)
@@ -1487,7 +2151,7 @@ def cbcheck_request(case):
 
 def parse_cbcheck_reply(rep, n, nb):
     t = rep.split(" ")
-    if t[0] in ("raise-refpoint", "raise-singular"):
+    if t[0] in ("raise-refpoint", "raise-singular", "raise-usetrows", "raise-notascending"):
         return {"chk": t[0]}
     if t[0] not in ("pass", "fail", "single"):
         raise Infra("C06 driver: unexpected cbcheck reply %r" % rep[:80])
@@ -1507,11 +2171,13 @@ def parse_cbcheck_reply(rep, n, nb):
         out[name] = v[k:k + sz].reshape(shape)
         k += sz
     tail = [int(x) for x in t[1 + nfl:]]
-    if len(tail) < 3 or len(tail) != 3 + tail[1] + tail[2]:
+    if len(tail) < 5 or len(tail) != 5 + tail[1] + tail[2] + tail[3]:
         raise Infra("C06 driver: cbcheck reply has a malformed integer tail %r" % tail[:8])
-    out["ntrim"], nnull, nml = tail[:3]
-    out["null"] = tail[3:3 + nnull]
-    out["massless"] = tail[3 + nnull:]
+    out["ntrim"], nnull, nml, npr = tail[:4]
+    out["rbnorm"] = bool(tail[4])
+    out["null"] = tail[5:5 + nnull]
+    out["massless"] = tail[5 + nnull:5 + nnull + nml]
+    out["printed"] = tail[5 + nnull + nml:]
     return out
 
 
@@ -1527,6 +2193,10 @@ def spec_branches(spec):
         br.append("mass:unequal-translational")
     if any(k in (2, 3) for k in spec["kinds"]):
         br.append("cs:curvilinear-possible")
+    if spec.get("em_filt", 0) > 0:
+        br.append("em_filt:positive")
+    if not spec["reorder"] and spec["layout"] != "first":
+        br.append("reorder:False-bset-not-leading")
     if spec.get("special"):
         br.append("special:" + spec["special"])
         if spec["brefgrid"] == spec["special_pos"]:
@@ -1651,12 +2321,25 @@ def compare_cbcheck(ctx, cmp, case, out, txt, mo):
         ctx.disagree(R, inp, {"what": "ids of the coordinate table", "printed": rp.get("coord_ids")}, ids_model)
     # fixed-base table: mode number, frequency (3 decimals), percent (2 decimals), column totals
     if nq:
-        if rp.get("em_percent") is None or rp["em_modes"] != list(range(1, nq + 1)):
-            ctx.disagree(R, inp, {"what": "effective mass table rows", "modes": rp.get("em_modes")}, list(range(1, nq + 1)))
+        emf = float(spec.get("em_filt", 0))
+        pr = mo["printed"]
+        with np.errstate(invalid="ignore"):
+            near = emf > 0 and np.all(np.isfinite(mo["percent"])) and np.any(np.abs(mo["percent"] - emf) <= 1e-7 * max(emf, 1.0))
+        if near:
+            ctx.skip("a percent effective mass sits on the em_filt threshold")
+        elif rp.get("em_percent") is None or rp["em_modes"] != [q + 1 for q in pr]:
+            # which rows are printed (em_filt): exact
+            ctx.disagree(R, inp, {"what": "effective mass table rows", "modes": rp.get("em_modes")}, [q + 1 for q in pr])
         elif np.all(np.isfinite(mo["percent"])):
-            _tab_close(ctx, R, inp, "effective mass table: percent", rp["em_percent"], mo["percent"], 0.6e-2, 1e-7, 100.0)
-            _tab_close(ctx, R, inp, "effective mass table: frequency", rp["em_frq"], mo["frq"], 0.6e-3, 1e-9)
+            _tab_close(ctx, R, inp, "effective mass table: percent", rp["em_percent"], mo["percent"][pr], 0.6e-2, 1e-7, 100.0)
+            _tab_close(ctx, R, inp, "effective mass table: frequency", rp["em_frq"], mo["frq"][pr], 0.6e-3, 1e-9)
             _tab_close(ctx, R, inp, "effective mass table: totals", rp["em_total"], mo["percent"].sum(axis=0), 0.6e-2, 1e-7, 100.0)
+        if emf > 0 and ("Printing only the modes with at least %.1f%% effective" % emf) not in txt:
+            ctx.disagree(R, inp, "the em_filt note is missing from the report", "Printing only the modes with at least %.1f%%" % emf)
+        if emf > 0 and len(pr) < nq:
+            ctx.count("em_filt:rows-dropped")
+    elif not rp.get("no_modes_note"):
+        ctx.disagree(R, inp, "report of a model without modal DOF lacks the no-modes note", "There are no modes ...")
     # matrix value checks (%g, 6 significant digits) on the matrices _solve_eig hands back
     for j, key in enumerate(("mqq_diag", "mqq_off", "kbb_max", "kbq_max", "kqq_off", "kqq_min")):
         got = rp["vals"].get(key)
@@ -1695,6 +2378,7 @@ def correspondence(ctx):
     cg_cases = cgmass_cases(ctx, rng, ctx.pick(400, 4000))
     for c in cg_cases:
         req.append("cgmass " + bits(c["m"]))
+        req.append("princ " + bits(c["m"]))
     # --- B: rbgeom / rbmove ------------------------------------------------------------
     rng = ctx.np_rng(2)
     geo = []
@@ -1758,6 +2442,22 @@ def correspondence(ctx):
                 continue
         cb_cases.append(case)
         req.append(cbcheck_request(case))
+    # the two input errors of the dispatch: a uset of the wrong size, reorder=False with a bseto that is not ascending
+    err_cases = []
+    for case in cb_cases:
+        if len(err_cases) >= 6:
+            break
+        if case["spec"].get("special") or _bref_on_pinned(case["spec"]):
+            continue
+        if len(err_cases) % 2 == 0:
+            bad_uset = n2p.addgrid(case["uset"], 9999, "b", 0, [0.0, 0.0, 0.0], 0)
+            err_cases.append((case, "usetrows", dict(uset=bad_uset)))
+            req.append(cbcheck_request(case, uset=bad_uset))
+        elif case["spec"]["nbg"] > 1:
+            pb = case["pos_b"]
+            bad = np.concatenate([pb[6:], pb[:6]])  # grids rotated: not ascending
+            err_cases.append((case, "notascending", dict(bseto=bad)))
+            req.append(cbcheck_request(case, bseto=bad, reorder=False))
 
     # --- G: _solve_eig (null columns, Guyan reduction of massless DOF, back expansion) ---------------
     rng = ctx.np_rng(7)
@@ -1783,7 +2483,7 @@ def correspondence(ctx):
     rd_cases = rbdisp_cases(rng, ctx.pick(150, 1500))
     for c in rd_cases:
         req.append("rbdisp %d %s %s" % (len(c["kinds"]), bits([c["tol"]]), bits(c["rbdisp"])))
-    # --- I: mk_net_drms ------------------------------------------------------------------------------
+    # --- I: mk_net_drms (the whole routine) -----------------------------------------------------------------
     rng = ctx.np_rng(9)
     nt_cases = []
     for c in net_cases(rng, ctx.pick(36, 300)):
@@ -1793,8 +2493,7 @@ def correspondence(ctx):
             continue
         c["nb_"] = nb_
         nt_cases.append(c)
-        req.append(net_request(nb_, c["opt"]["conv"], nb_["case"]["Min"]))
-        req.append(net_request(nb_, c["opt"]["conv"], nb_["case"]["Kin"]))
+        req.append(net_request(nb_, c["opt"]))
     # --- J: rbmultchk ----------------------------------------------------------------------------------
     rng = ctx.np_rng(10)
     rm_cases = rbmult_cases(rng, ctx.pick(80, 800))
@@ -1804,6 +2503,40 @@ def correspondence(ctx):
                                                              list(range(c["nc"]))))
         c["bs"] = bs
         req.append("rbmult %d %d %d %s %s %s" % (c["drm"].shape[0], c["nc"], len(bs), ints(bs), bits(c["drm"]), bits(c["rb"])))
+    # --- M: rbmultchk on exact data (scale of the modes, coordinates, unit scales, flagged rows) ------------------
+    rng = ctx.np_rng(13)
+    rc_cases = rbchk_cases(rng, ctx.pick(90, 700))
+    for c in rc_cases:
+        req.append(rbchk_request(c))
+    rc_err = []
+    for c in rc_cases:
+        if len(rc_err) >= 4:
+            break
+        if len(rc_err) % 2 == 0 and c["nc"] > c["nb"]:
+            rc_err.append((c, "bsetString"))
+            req.append(rbchk_request(c, spec="middle"))
+        elif len(rc_err) % 2 == 1:
+            z = dict(c, rb_i=[[0] + r[1:] for r in c["rb_i"]])
+            rc_err.append((z, "scale"))
+            req.append(rbchk_request(z))
+    # --- N: cb.cbcoordchk directly --------------------------------------------------------------------------
+    rng = ctx.np_rng(15)
+    cc_cases = []
+    for c in coordchk_cases(rng, ctx.pick(40, 300)):
+        b = build_coordchk(c)
+        if b["case"]["red"]["cond"] > 1e8 or (b["normz"] is not None and np.linalg.cond(b["normz"]) > 1e5):
+            ctx.skip("cbcoordchk: structure / reference set outside conditioning domain")
+            continue
+        nbq = b["case"]["nb"]
+        kbb = b["case"]["red"]["Kcb"][:nbq, :nbq]
+        where = {int(x): kk for kk, x in enumerate(b["case"]["pos_b"])}
+        oo = np.setdiff1d(np.arange(nbq), [where[int(r)] for r in b["ref"]])
+        if len(oo) and np.linalg.cond(kbb[np.ix_(oo, oo)]) > 1e6:
+            ctx.skip("cbcoordchk: koo ill-conditioned (> 1e6)")
+            continue
+        c["b"] = b
+        cc_cases.append(c)
+        req.append(coordchk_request(b))
     # --- K: cbtf at 0 Hz ----------------------------------------------------------------------------------
     rng = ctx.np_rng(11)
     c0_cases = cbtf0_cases(rng, ctx.pick(60, 600))
@@ -1826,10 +2559,22 @@ def correspondence(ctx):
         cmp("cgmass", "mcg", inp, mcg, v[:36].reshape(6, 6), sc)
         cmp("cgmass", "dxyz", inp, d, v[36:39], max(np.abs(d).max(), 1e-30 + sc / np.abs(np.diag(c["m"])[:3]).max() * 0))
         cmp("cgmass", "gyr", inp, gyr, v[39:42])
+        # principal axes: the model's own symmetric eigen-solver (Jacobi) with its specification residuals measured
+        pv = unbits(rep[k].split(" ")[:8])
+        asc = rep[k].split(" ")[8]
+        k += 1
+        isc = max(np.abs(I).max(), 1e-300)
+        if not (pv[6] <= 1e-12 and pv[7] <= 1e-12 and asc == "1"):
+            ctx.disagree("cgmass-eigh-spec", inp, {"VtV-1": float(pv[6]), "VtIV-diag(w) (relative)": float(pv[7]), "ascending": asc},
+                         "<= 1e-12, ascending")
+        cmp("cgmass-principal", "princ_I", inp, np.diag(pI), pv[:3], isc)
+        cmp("cgmass-principal", "princ_gyr", inp, pgyr, pv[3:6], max(np.abs(pv[3:6]).max(), 1e-300), 1e-8)
+        if np.abs(pI - np.diag(np.diag(pI))).max() != 0:
+            ctx.disagree("cgmass-principal", inp, "princ_I is not diagonal", "np.diag(w)")
         mcg2, d2 = cb.cgmass(c["m"])
         if not (np.array_equal(mcg2, mcg) and np.array_equal(d2, d)):
             ctx.disagree("cgmass", inp, "all6=False differs from all6=True", "same values")
-        ctx.case(("cgmass", rep[k - 1][:60]), nontrivial=bool(np.any(c["truth"]["d"] != 0)), branch="cgmass:" + c["kind"])
+        ctx.case(("cgmass", rep[k - 2][:60]), nontrivial=bool(np.any(c["truth"]["d"] != 0)), branch="cgmass:" + c["kind"])
     # B
     for c in geo:
         rb = n2p.rbgeom(c["grids"], c["ref_arg"])
@@ -1899,6 +2644,26 @@ def correspondence(ctx):
             continue
         compare_cbcheck(ctx, cmp, case, out, txt, mo)
         ctx.sample({"cbcheck_spec": spec, "n": case["n"], "refchk": mo["chk"]}, cap=4)
+    for case, kind, kw in err_cases:
+        mo = parse_cbcheck_reply(rep[k], case["n"], case["nb"])
+        k += 1
+        inp = {"spec": case["spec"], "error-variant": kind}
+        spec = case["spec"]
+        conv = tuple(spec["conv"]) if isinstance(spec["conv"], list) else spec["conv"]
+        got = "a result"
+        try:
+            with warnings.catch_warnings():
+                warnings.simplefilter("ignore")
+                cb.cbcheck(io.StringIO(), case["Min"].copy(), case["Kin"].copy(), kw.get("bseto", case["bseto"]).copy(), case["bref"].copy(),
+                           kw.get("uset", case["uset"]), uref=case["uref"], conv=conv, rb_norm=spec["rbnorm"],
+                           reorder=spec["reorder"] if kind == "usetrows" else False)
+        except ValueError as e:
+            got = "raise-usetrows" if "number of rows in `uset`" in str(e) else ("raise-notascending" if "ascending" in str(e) else "ValueError: " + str(e)[:80])
+        except Exception as e:  # noqa: BLE001
+            got = "%s: %s" % (type(e).__name__, str(e)[:80])
+        if got != mo["chk"] or mo["chk"] != "raise-" + kind:
+            ctx.disagree("cbcheck-input-errors", inp, got, mo["chk"])
+        ctx.case(("cbcheck-error", kind, json.dumps(spec, sort_keys=True)), branch="cbcheck:raises-" + kind)
     # G
     worst_psi = 0.0
     for c in eg_cases:
@@ -1957,35 +2722,84 @@ def correspondence(ctx):
             ctx.count("rbdisp:warned")
         ctx.case(("rbdisp", rep[k - 1][:60]), nontrivial=bool(np.any(c["d"] != 0)))
     # I
+    worst_k = [0.0, 0.0]
     for c in nt_cases:
         nb_, opt = c["nb_"], c["opt"]
         case = nb_["case"]
         n, nb = case["n"], case["nb"]
-        vm = unbits(rep[k].split(" ")).reshape(2, 6, n)
-        vk = unbits(rep[k + 1].split(" ")).reshape(2, 6, n)
-        k += 2
+        nbi = len(nb_["bsub"]) if nb_["bsub"] is not None else nb
+        mo = parse_net_reply(rep[k], n, nb, nbi)
+        k += 1
         inp = {"spec": c["spec"], "opt": opt}
         ctx.case(("netdrm", json.dumps(inp, sort_keys=True)))
-        for t_, on in (("conv", opt["conv"] is not None), ("bsubset", opt["sub"]), ("sccoord", opt["sccoord"]), ("plain", True)):
+        tau = opt.get("tau", "g")
+        for t_, on in (("conv", opt["conv"] is not None), ("bsubset", opt["sub"]), ("sccoord", opt["sccoord"]), ("plain", True),
+                       ("reorder", nb_["reorder"]), ("sccoord-4x3", opt.get("sc4x3")), ("tau-natural", tau not in ("g", ["g", "g"])),
+                       ("g-other", opt.get("g", G0) != G0), ("indep-123456", opt.get("indep") == 123456 and nbi > 12),
+                       ("single-grid", nbi == 6), ("conv-string", isinstance(opt["conv"], str)),
+                       ("reorder-bsubset", nb_["reorder"] and opt["sub"])):
             if on:
                 ctx.count("netdrm:" + t_)
         try:
-            res, _ = run_net(nb_, opt["conv"])
+            res, grounding, replaced = run_net(nb_, opt["conv"], opt)
         except Exception as e:  # noqa: BLE001
             ctx.disagree("mk_net_drms", inp, "exception %s: %s" % (type(e).__name__, str(e)[:200]), "a result")
             continue
-        T6 = np.eye(6)
-        if nb_["sccoord"] is not None:
-            T6 = np.block([[nb_["sccoord"].T, np.zeros((3, 3))], [np.zeros((3, 3)), nb_["sccoord"].T]])
-        bset = np.asarray(nb_["bset"])
-        cmp("mk_net_drms-ifltma_sc", "ifltma_sc", inp, res.ifltma_sc, vm[0])
-        cmp("mk_net_drms-ifltma_lv", "ifltma_lv", inp, res.ifltma_lv, T6 @ vm[1])
+        worst_k = [max(worst_k[0], mo["rbe3_resid"]), max(worst_k[1], mo["cg_resid"])]
+        if not (mo["rbe3_resid"] <= 1e-9 and mo["cg_resid"] <= 1e-9):
+            ctx.disagree("mk_net_drms-kernel-spec", inp, {"rbe3 normal equations": float(mo["rbe3_resid"]), "Mcg solve": float(mo["cg_resid"])},
+                         "<= 1e-9 relative residual of the model's own kernels")
         ksc = max(np.abs(case["Kin"]).max(), 1e-300) * max(1.0, np.abs(res.rb_all).max())
         cf = conv_factors(opt["conv"])
         lc, mc = cf if cf else (1.0, 1.0)
-        cmp("mk_net_drms-ifltmd_sc", "ifltmd_sc", inp, res.ifltmd_sc, vk[0][:, bset], ksc * max(1.0, 1 / lc))
-        cmp("mk_net_drms-ifltmd_lv", "ifltmd_lv", inp, res.ifltmd_lv, T6 @ vk[1][:, bset], ksc * mc * lc * max(lc, 1.0))
+        dsc = {"ifltmd_sc": ksc * max(1.0, 1 / lc), "ifltmd_lv": ksc * mc * lc * max(lc, 1.0), "cglfd": None}
+        for nm, _, _ in NET_FIELDS:
+            got = getattr(res, nm)
+            sc_ = dsc.get(nm)
+            if nm == "cglfd":
+                # displacement-dependent load factors: moments (round-off of a free model) over weight * height
+                sc_ = dsc["ifltmd_lv"] / max(abs(mo["weight_lv"] * mo["height_lv"]), 1e-300) + \
+                    dsc["ifltmd_sc"] / max(abs(mo["weight_sc"] * mo["height_sc"]), 1e-300)
+            cmp("mk_net_drms-" + nm, nm, inp, got, mo[nm], sc_, 1e-8 if nm.startswith(("ifatm", "cgatm", "cglf")) else None)
+        for nm in ("weight_sc", "height_sc", "weight_lv", "height_lv", "cg_sc", "cg_lv"):
+            cmp("mk_net_drms-" + nm, nm, inp, np.atleast_1d(getattr(res, nm)), np.atleast_1d(mo[nm]),
+                max(np.abs(mo["cg_sc"]).max(), 1e-300) if nm.startswith(("cg", "height")) else None, 1e-8)
+        cmp("mk_net_drms-rb", "rb", inp, res.rb, mo["rb"], max(1.0, np.abs(mo["rb_all"]).max()))
+        cmp("mk_net_drms-rb", "rb_all", inp, res.rb_all, mo["rb_all"], max(1.0, np.abs(mo["rb_all"]).max()))
+        T6 = np.eye(6)
+        if nb_["sccoord"] is not None:
+            T6 = np.block([[nb_["sccoord"].T, np.zeros((3, 3))], [np.zeros((3, 3)), nb_["sccoord"].T]])
+        cmp("mk_net_drms-Tsc2lv", "Tsc2lv", inp, res.Tsc2lv, T6, 1.0, 1e-12)
         cmp("mk_net_drms-stack", "ifltma rows", inp, res.ifltma, np.vstack((res.ifltma_sc, res.ifltma_lv)), None, 1e-15)
+        cmp("mk_net_drms-stack", "ifltmd rows", inp, res.ifltmd, np.vstack((res.ifltmd_sc, res.ifltmd_lv)), ksc, 1e-15)
+        cmp("mk_net_drms-stack", "ifatm rows", inp, res.ifatm, np.vstack((res.ifatm_sc, res.ifatm_lv)), None, 1e-15)
+        # decisions (exact unless the two candidates are within round-off of each other)
+        a_sc, a_lv = np.sort(np.abs(mo["cg_sc"])), np.sort(np.abs(mo["cg_lv"]))
+        tie = a_sc[2] - a_sc[1] <= 1e-9 * a_sc[2] or a_lv[2] - a_lv[1] <= 1e-9 * a_lv[2]
+        thr = 1e-8 + 1e-5 * a_lv[2]
+        edge = abs(abs(a_sc[2] - a_lv[2]) - thr) <= 1e-6 * thr
+        if tie or edge:
+            ctx.skip("mk_net_drms: axial direction / lv-row replacement within round-off of its threshold")
+        else:
+            if (int(res.scaxial_sc), int(res.scaxial_lv)) != (mo["scaxial_sc"], mo["scaxial_lv"]):
+                ctx.disagree("mk_net_drms-scaxial", inp, [int(res.scaxial_sc), int(res.scaxial_lv)], [mo["scaxial_sc"], mo["scaxial_lv"]])
+            if replaced != mo["replace"]:
+                ctx.disagree("mk_net_drms-replace-lv", inp, replaced, mo["replace"])
+            for nm in ("ifltm_labels", "ifatm_labels", "cglf_labels"):
+                if list(getattr(res, nm)) != mo[nm]:
+                    ctx.disagree("mk_net_drms-labels", inp, {nm: list(getattr(res, nm))}, mo[nm])
+            if mo["replace"]:
+                ctx.count("netdrm:lv-rows-replaced")
+            ctx.count("netdrm:axial-%d" % mo["scaxial_sc"])
+        gmargin = np.abs(case["Kin"][np.ix_(nb_["bset"], nb_["bset"])] @ res.rb_all[:, :]).max() if not nb_["reorder"] and cf is None else None
+        if grounding != mo["grounding"]:
+            if gmargin is not None and gmargin > 0 and abs(gmargin / (np.abs(case["Kin"][np.ix_(nb_["bset"], nb_["bset"])]).max() * 1e-8) - 1) < 1e-3:
+                ctx.skip("mk_net_drms: grounding warning on its threshold")
+            elif c["spec"]["nbg"] == 1:
+                ctx.skip("mk_net_drms: grounding test of a single-grid interface compares round-off with round-off")
+            else:
+                ctx.disagree("mk_net_drms-grounding-warning", inp, grounding, mo["grounding"])
+    ctx.extra["worst_net_kernel_residuals"] = worst_k
     # J
     for c in rm_cases:
         got, _ = run_rbmult(c)
@@ -1994,6 +2808,120 @@ def correspondence(ctx):
         cmp("rbmultchk", "drmrb", {"mode": c["mode"], "bset": c["bs"], "drm": c["drm"].tolist(), "rb": c["rb"].tolist()}, got, want,
             None, 1e-12)
         ctx.case(("rbmult", rep[k - 1][:60]), branch="rbmult:" + c["mode"])
+    # M
+    for c in rc_cases:
+        mo = parse_rbchk_reply(rep[k])
+        k += 1
+        inp = {"drm_i": c["drm_i"], "rb_i": c["rb_i"], "den": c["den"], "layout": c["layout"], "posb": c["posb"]}
+        ctx.case(("rbchk", json.dumps(inp)), branch="rbchk:layout-" + c["layout"])
+        for kd in set(sg["kind"] for sg in c["segs"]):
+            ctx.count("rbchk:" + kd)
+        if c.get("first_su_small"):
+            ctx.count("rbchk:first-grid-not-the-largest-scale")
+        try:
+            got, txt = run_rbchk(c)
+        except Exception as e:  # noqa: BLE001
+            ctx.disagree("rbmultchk-exact", inp, "exception %s: %s" % (type(e).__name__, str(e)[:200]), mo["status"])
+            continue
+        if mo["status"] == "borderline":
+            ctx.skip("rbmultchk: a comparison of find_xyz_triples is within 1e-9 of its threshold")
+            continue
+        if mo["status"] != "ok":
+            ctx.disagree("rbmultchk-exact", inp, "a result", mo)
+            continue
+        sc = max(np.abs(mo["drmrb"]).max(), 1e-300)
+        cmp("rbmultchk-exact", "drmrb", inp, got, mo["drmrb"], sc, 1e-12)
+        rp = parse_rbmult_report(txt)
+        if rp["rbscale"] is None or abs(rp["rbscale"] - math.sqrt(mo["s2"])) > 1e-12 * math.sqrt(mo["s2"]):
+            ctx.disagree("rbmultchk-rbscale", inp, rp["rbscale"], math.sqrt(mo["s2"]))
+        nr = len(c["drm_i"])
+        null = mo["null"]
+        if rp["null"] != null:
+            ctx.disagree("rbmultchk-null-rows", inp, rp["null"], null)
+        shown = [i for i in range(nr) if i not in null] if (null and len(null) < nr) else (list(range(nr)) if not null else [])
+        if sorted(rp["rows"]) != shown:
+            ctx.disagree("rbmultchk-table-rows", inp, sorted(rp["rows"]), shown)
+        else:
+            csc = max(1.0, mo["model_scale"])
+            for i in shown:
+                r, mc_ = rp["rows"][i], mo["coords"][i]
+                if (r["coords"] is None) != (mc_ is None):
+                    ctx.disagree("rbmultchk-triple-detection", inp, {"row": i, "printed coordinates": r["coords"]}, {"model": mc_})
+                    break
+                if mc_ is not None:
+                    if not np.all(np.abs(np.array(r["coords"]) - np.array(mc_)) <= 0.6e-4 + 1e-9 * csc):
+                        ctx.disagree("rbmultchk-coordinates", inp, {"row": i, "printed": r["coords"]}, mc_)
+                        break
+                    us = math.sqrt(mo["us2"][i])
+                    if abs(r["scale"] - us) > 0.7e-5 * us:
+                        ctx.disagree("rbmultchk-unit-scale", inp, {"row": i, "printed": r["scale"]}, us)
+                        break
+                if not np.all(np.abs(np.array(r["resp"]) - mo["drmrb"][i]) <= 0.6e-3 + 1e-9 * sc):
+                    ctx.disagree("rbmultchk-responses", inp, {"row": i, "printed": r["resp"]}, mo["drmrb"][i].tolist())
+                    break
+        if mo["extremes"] is None:
+            if rp["extremes"] is not None:
+                ctx.disagree("rbmultchk-extremes", inp, rp["extremes"], "no coordinates detected")
+        elif rp["extremes"] in (None, "missing") or not np.all(np.abs(np.array(rp["extremes"]) - np.array(mo["extremes"])) <= 0.6e-4 + 1e-9 * max(1.0, mo["model_scale"])):
+            ctx.disagree("rbmultchk-extremes", inp, rp["extremes"], mo["extremes"])
+        # a non-rigid triple must be blank; a node must be found (against the generator's intent, exact rule = the model)
+        rowi = 0
+        for sg in c["segs"]:
+            ln = 3 if sg["kind"] in ("node", "bad", "rot") else 1
+            if sg["kind"] == "bad" and all(mo["coords"][rowi + t] is None for t in range(3)):
+                ctx.count("rbchk:flagged-nonrigid")
+            if sg["kind"] == "node" and all(mo["coords"][rowi + t] is not None for t in range(3)):
+                ctx.count("rbchk:node-found")
+            rowi += ln
+    for c, kind in rc_err:
+        mo = parse_rbchk_reply(rep[k])
+        k += 1
+        inp = {"drm_i": c["drm_i"], "rb_i": c["rb_i"], "den": c["den"], "error-variant": kind}
+        try:
+            run_rbchk(c, bset="middle" if kind == "bsetString" else None)
+            got = "a result"
+        except ValueError as e:
+            got = "bsetString" if "invalid `bset` string" in str(e) else ("scale" if "failed to get scale" in str(e) else "ValueError: " + str(e)[:60])
+        except Exception as e:  # noqa: BLE001
+            got = "%s: %s" % (type(e).__name__, str(e)[:60])
+        if mo.get("err") != kind or got != kind:
+            ctx.disagree("rbmultchk-errors", inp, got, mo)
+        ctx.case(("rbchk-error", kind, json.dumps(inp)[:200]), branch="rbchk:err-" + kind)
+    # N
+    for c in cc_cases:
+        b = c["b"]
+        case = b["case"]
+        n, nb = case["n"], case["nb"]
+        t = rep[k].split(" ")
+        k += 1
+        inp = {"spec": c["spec"], "mode": c["mode"], "seed": c["seed"]}
+        ctx.case(("coordchk", json.dumps(inp, sort_keys=True)), branch="coordchk:" + c["mode"])
+        if case["nq"] == 0:
+            ctx.count("coordchk:no-modal-dof")
+        if not np.array_equal(b["bset"], np.sort(b["bset"])):
+            ctx.count("coordchk:bset-unsorted")
+        try:
+            r = run_coordchk(b)
+        except Exception as e:  # noqa: BLE001
+            ctx.disagree("cbcoordchk", inp, "exception %s: %s" % (type(e).__name__, str(e)[:200]), t[0])
+            continue
+        if t[0].startswith("raise"):
+            ctx.disagree("cbcoordchk", inp, "a result", t[0])
+            continue
+        nrows = int(t[1])
+        ng = nb // 6
+        v = unbits(t[2:2 + 6 * nrows + 3 * ng + ng])
+        rbm = v[:6 * nrows].reshape(nrows, 6)
+        co = v[6 * nrows:6 * nrows + 3 * ng].reshape(ng, 3)
+        er = v[6 * nrows + 3 * ng:]
+        sc = max(1.0, np.abs(rbm).max())
+        cmp("cbcoordchk-rbmodes", "rbmodes", inp, r.rbmodes, rbm, sc)
+        cmp("cbcoordchk-coords", "coords", inp, r.coords, co, max(1.0, np.abs(co).max()))
+        # (`maxerr` is the vector of pattern errors per node, as rbdispchk returns it)
+        cmp("cbcoordchk-maxerr", "maxerr", inp, np.atleast_1d(r.maxerr), er, max(1.0, np.abs(co).max()))
+        want_chk = "pass" if t[0] == "single" else t[0]
+        if r.refpoint_chk != want_chk:
+            ctx.disagree("cbcoordchk-refchk", inp, r.refpoint_chk, t[0])
     # K
     for c in c0_cases:
         tf = run_cbtf0(c)
@@ -2029,11 +2957,17 @@ def correspondence(ctx):
         # extension round
         "variant:grounded1", "special:massless6", "special:massless-rot", "special:pinned",
         "coordchk:zero-stiffness-trimmed", "solve_eig:null-columns-trimmed", "solve_eig:massless-guyan-reduced",
-        "cbcheck:raises-refpoint-zero-stiffness",
+        "cbcheck:raises-refpoint-zero-stiffness", "cbcheck:raises-usetrows", "cbcheck:raises-notascending",
+        "em_filt:positive", "em_filt:rows-dropped", "reorder:False-bset-not-leading",
         "solve_eig-direct:none", "solve_eig-direct:null", "solve_eig-direct:massless", "solve_eig-direct:both",
         "rbdisp:exact", "rbdisp:small", "rbdisp:large", "rbdisp:warned",
-        "netdrm:plain", "netdrm:conv", "netdrm:bsubset", "netdrm:sccoord",
+        "netdrm:plain", "netdrm:conv", "netdrm:bsubset", "netdrm:sccoord", "netdrm:reorder", "netdrm:sccoord-4x3",
+        "netdrm:tau-natural", "netdrm:g-other", "netdrm:single-grid", "netdrm:conv-string", "netdrm:axial-0", "netdrm:axial-1",
+        "netdrm:axial-2",
         "rbmult:first", "rbmult:last", "rbmult:vector", "rbmult:full",
+        "coordchk:grid", "coordchk:3-2-1", "coordchk:no-modal-dof", "coordchk:bset-unsorted",
+        "rbchk:first-grid-not-the-largest-scale", "rbchk:layout-first", "rbchk:layout-last", "rbchk:layout-vec", "rbchk:layout-full", "rbchk:node", "rbchk:rot", "rbchk:null",
+        "rbchk:modal", "rbchk:bad", "rbchk:flagged-nonrigid", "rbchk:node-found", "rbchk:err-bsetString", "rbchk:err-scale",
         "cbtf0:bfirst", "cbtf0:blast", "cbtf0:bmixed", "cbtf0:bnoq-permuted",
     ])
 
@@ -2084,6 +3018,25 @@ def oracle_cgmass(c):
     ok, e = _close(np.diag(pI), np.linalg.eigvalsh(J), 1e-8)
     if not ok:
         _fail(out, fam + "-principal", "principal inertias", inp, np.diag(pI).tolist(), np.linalg.eigvalsh(J).tolist())
+    if mx == my == mz:
+        # principal moments / radii are properties of the body: the same from any reference point and in any rotated frame
+        rs = np.random.default_rng([int(abs(m[3, 3]) * 1e6) % (2 ** 31), 5])
+        T = rb6(np.zeros(3), rs.uniform(-1, 1, 3) * max(np.abs(d).max(), 1.0))  # the old reference seen from a new one
+        R = rand_rot(rs)
+        T6 = np.block([[R, np.zeros((3, 3))], [np.zeros((3, 3)), R]])
+        for nm, m2 in (("reference-point", T.T @ m @ T), ("frame-rotation", T6.T @ m @ T6)):
+            m2 = (m2 + m2.T) / 2
+            with warnings.catch_warnings():
+                warnings.simplefilter("ignore")
+                _, _, _, pg2, _, pI2 = cb.cgmass(m2, all6=True)
+            sc = max(np.abs(J).max(), 1e-300) + mx * float(np.abs(d).max()) ** 2 * 1e-6
+            if not _close(np.diag(pI2), np.diag(pI), 1e-7, sc)[0] or not _close(pg2, pgyr, 1e-6, max(np.abs(pgyr).max(), 1e-300))[0]:
+                _fail(out, "cgmass-principal-" + nm, "principal inertias / radii of gyration change with the %s" % nm.replace("-", " "), inp,
+                      {"pI": np.diag(pI2).tolist(), "pgyr": np.asarray(pg2).tolist()}, {"pI": np.diag(pI).tolist(), "pgyr": np.asarray(pgyr).tolist()})
+        ok, e = _close(pgyr, np.sqrt(np.linalg.eigvalsh(J) / mx), 1e-8)
+        if not ok:
+            _fail(out, fam + "-principal-gyr", "principal radii of gyration are not sqrt(I_p / m)", inp, np.asarray(pgyr).tolist(),
+                  np.sqrt(np.linalg.eigvalsh(J) / mx).tolist())
     try:
         bad = m.copy()
         bad[0, 4] += 0.5 * max(np.abs(m).max(), 1.0)
@@ -2368,6 +3321,19 @@ def oracle_cbcheck(spec):
     except Exception as e:
         if _bref_on_pinned(spec) and isinstance(e, RuntimeError) and "zero stiffness" in str(e):
             return out  # documented: a reference DOF without stiffness cannot restrain rigid-body motion
+        if isinstance(e, IndexError) and float(spec.get("em_filt", 0)) > 0 and case["nq"] > 0:
+            try:
+                ok0 = run_cbcheck(dict(case, spec=dict(spec, em_filt=0)))[0]
+                none_above = not np.any(ok0.effmass_percent.values > float(spec["em_filt"]))
+            except Exception:  # noqa: BLE001
+                none_above = False
+            if none_above:
+                # F66 (fixed by 2a88ed1): the print filter made cbcheck raise on a valid model when no mode is above it
+                _fail(out, "cbcheck-em_filt-no-mode-above-filter-raises-IndexError", "cbcheck(..., em_filt=x) raises IndexError (writer.vecwrite on an "
+                      "empty effective-mass table) when no fixed-base mode has more than x percent effective mass; with em_filt=0 the "
+                      "same model is checked without complaint", inp, "%s: %s" % (type(e).__name__, str(e)[:120]),
+                      "a report with an empty table (the totals line still sums all modes)")
+                return out
         _fail(out, base + "-raises-" + type(e).__name__, "cbcheck raises on a well-formed model", inp,
               "%s: %s" % (type(e).__name__, str(e)[:200]), "a result")
         return out
@@ -2509,6 +3475,21 @@ def oracle_cbcheck(spec):
                 if not _close(resid, want_res, 1e-7, tot)[0]:
                     _fail(out, fam("effmass-total"), "effective mass + boundary residual != total mass", inp, resid.tolist(), want_res.tolist())
     oracle_report(out, fam, inp, case, tr, res, rp, free, geometry_ok)
+    if sum(spec["seed"]) % 3 == 0 and not spec.get("special"):
+        # options that must not change the returned matrices / tables: rb_norm (acts on rbs, rbe only), em_filt (printing
+        # only), n_freefree_modes (the free-free eigensolution only)
+        alt = dict(spec, rbnorm=(not tr["rbnorm"]), em_filt=(0 if spec.get("em_filt", 0) else 7.5))
+        try:
+            res2, _ = run_cbcheck(dict(case, spec=alt))
+            same = all(np.array_equal(np.asarray(getattr(res, nm)), np.asarray(getattr(res2, nm)))
+                       for nm in ("m", "k", "bset", "rbg", "cb_frq")) and \
+                np.array_equal(res.effmass.values, res2.effmass.values) and np.array_equal(res.effmass_percent.values, res2.effmass_percent.values) \
+                and res.uset.equals(res2.uset)
+            if not same:
+                _fail(out, "cbcheck-option-dependence", "m / k / bset / rbg / uset / effmass / effmass_percent / cb_frq change with rb_norm or em_filt",
+                      inp, "different", "identical")
+        except Exception as e:  # noqa: BLE001
+            _fail(out, "cbcheck-option-dependence", "cbcheck raises when only rb_norm / em_filt are changed", inp, repr(e)[:200], "a result")
     return out
 
 
@@ -2639,18 +3620,26 @@ def oracle_report(out, fam, inp, case, tr, res, rp, free, geometry_ok):
             _fail(out, fam("report-freefree"), "free-free frequencies differ from the finite eigenvalues of the (K, M) pencil", inp,
                   ff.tolist(), want.tolist())
     # which DOF were reduced out (the printed pv lists)
-    nullp = sorted(_positions_after(case, [i for i in pt["null"] if i < nb]))
+    # (printed positions are matrix positions: the b-set rows sit at res.bset, which is arange(nb) after reordering)
+    nullp = sorted(int(np.asarray(res.bset)[i]) for i in _positions_after(case, [i for i in pt["null"] if i < nb]))
     if (rp["trim_null"] or []) != nullp:
         _fail(out, fam("report-trim"), "null columns listed by _solve_eig", inp, rp["trim_null"], nullp)
     if len(rp["trim_massless"] or []) != len(pt["massless"]):
         _fail(out, fam("report-trim"), "massless DOF listed by _solve_eig", inp, rp["trim_massless"], "%d DOF" % len(pt["massless"]))
     # --- fixed-base modes / effective mass table
     if geometry_ok and free and nq:
-        if rp.get("em_percent") is None or rp.get("em_modes") != list(range(1, nq + 1)):
-            _fail(out, fam("report-effmass"), "effective mass table incomplete", inp, rp.get("em_modes"), "modes 1..%d" % nq)
+        # em_filt > 0 prints only the modes with more than em_filt percent in some direction (the totals include all modes)
+        emf = float(spec.get("em_filt", 0))
+        keep = np.nonzero(np.any(tr["percent"] > emf, axis=1))[0] if emf > 0 else np.arange(nq)
+        on_edge = emf > 0 and np.any(np.abs(tr["percent"] - emf) <= 1e-6 * max(emf, 1.0))
+        if on_edge:
+            pass
+        elif rp.get("em_percent") is None or rp.get("em_modes") != [int(q) + 1 for q in keep]:
+            _fail(out, fam("report-effmass"), "effective mass table does not list the modes above em_filt (all modes for em_filt = 0)", inp,
+                  rp.get("em_modes"), [int(q) + 1 for q in keep])
         else:
-            chk("effmass", "percent effective mass", rp["em_percent"], tr["percent"], 0.6e-2, 1e-6, 100.0)
-            chk("effmass", "fixed-base frequencies of the table", rp["em_frq"], tr["frq"], 0.6e-3, 1e-8)
+            chk("effmass", "percent effective mass", rp["em_percent"], tr["percent"][keep], 0.6e-2, 1e-6, 100.0)
+            chk("effmass", "fixed-base frequencies of the table", rp["em_frq"], tr["frq"][keep], 0.6e-3, 1e-8)
             chk("effmass", "total effective mass line", rp["em_total"], tr["percent"].sum(axis=0), 0.6e-2, 1e-6, 100.0)
             if rp["em_total"] is not None and np.any(rp["em_total"][:3] > 100.006):
                 _fail(out, fam("report-effmass"), "translational effective mass exceeds 100 percent", inp, rp["em_total"].tolist(), "<= 100")
@@ -2677,7 +3666,7 @@ def probe_noreorder(seed):
     rng = np.random.default_rng(seed)
     spec = gen_spec(rng)
     spec.update(reorder=False, gridperm=list(range(spec["nbg"])), layout=str(rng.choice(["last", "mixed"])),
-                variant="valid", conv=None)
+                variant="valid", conv=None, em_filt=0)
     if spec["nbg"] == 1 and spec["layout"] == "last" and spec["rbnorm"] is not True:
         spec["rbnorm"] = True
     for f in oracle_cbcheck(spec):
@@ -2739,6 +3728,21 @@ def probe_net_reorder_spec(spec, with_kind=False):
     return (out, kind) if with_kind else out
 
 
+def probe_emfilt(seed):
+    """regression guard of finding F66 (cbcheck-em_filt-no-mode-above-filter-raises-IndexError, fixed by 2a88ed1): a positive
+    print filter above every percent effective mass of the model must give a report with an empty table"""
+    rng = np.random.default_rng(seed)
+    spec = gen_spec(rng)
+    spec.update(variant="valid", reorder=True, conv=None, em_filt=100.5)  # no single mode can have more than 100 percent
+    spec["nq"] = max(1, spec["nq"])
+    out = []
+    for f in oracle_cbcheck(spec):
+        f = dict(f)
+        f["input"] = {"kind": "cbcheck", "spec": spec}
+        out.append(f)
+    return out
+
+
 def probe_nomodes(seed):
     """cbcheck on a Craig-Bampton model with NO retained modes (Guyan reduction only).  New finding: _values_check
     takes np.max of the empty MQQ diagonal -> ValueError, although cbcheck has an explicit branch for nq = 0."""
@@ -2749,7 +3753,7 @@ def probe_nomodes(seed):
         spec["nbg"] += 1
         spec["ngrids"] += 1
         spec["gridperm"] = list(range(spec["nbg"]))
-    spec.update(nq=0, variant="valid", reorder=True)
+    spec.update(nq=0, variant="valid", reorder=True, em_filt=0)
     for f in oracle_cbcheck(spec):
         if "raises-ValueError" in f["family"]:
             f = dict(f, family="cbcheck-no-modal-dof-raises-ValueError")
@@ -2768,6 +3772,10 @@ def _run_kind(inp):
         return oracle_net(inp)
     if k == "rbmult":
         return oracle_rbmult(inp["seed"])
+    if k == "rbchk":
+        return oracle_rbchk(inp["case"])
+    if k == "coordchk":
+        return oracle_coordchk(inp)
     if k == "cbtf0":
         return oracle_cbtf0(inp)
     if k == "netdrm-reorder-probe":
@@ -2856,6 +3864,16 @@ def search(ctx, hints):
     for i in range(ctx.pick(60, 600)):
         fails += oracle_rbmult([ctx.seed, 55, i])
         ctx.count("oracle:rbmultchk")
+    rng = ctx.np_rng(15)
+    for c in coordchk_cases(rng, ctx.pick(40, 300)):
+        if build_case(c["spec"])["red"]["cond"] > 1e8:
+            continue
+        fails += oracle_coordchk(c)
+        ctx.count("oracle:cbcoordchk")
+    rng = ctx.np_rng(14)
+    for c in rbchk_cases(rng, ctx.pick(80, 600), bad_safe=True):
+        fails += oracle_rbchk(c)
+        ctx.count("oracle:rbmultchk-exact")
     rng = ctx.np_rng(11)
     for c in cbtf0_cases(rng, ctx.pick(60, 600)):
         fails += oracle_cbtf0(c)
@@ -2864,6 +3882,10 @@ def search(ctx, hints):
         f, kind = probe_net_reorder([ctx.seed, 98, i])
         fails += f[:1]
         ctx.count("oracle:probe-netdrm-reorder-%s-%s" % (kind, "fails" if f else "holds"))
+    for i in range(ctx.pick(2, 6)):
+        f = probe_emfilt([ctx.seed, 96, i])
+        fails += f[:1]
+        ctx.count("oracle:probe-cbcheck-emfilt-" + ("fails" if f else "holds"))
     for i in range(ctx.pick(3, 12)):
         f = probe_nomodes([ctx.seed, 97, i])
         fails += f[:1]
